@@ -474,7 +474,7 @@ Lemma poll_type_cases a q flat :
     (exists pre, q = pre ++ q' /\ only_chunks pre) /\
     match p with
     | Pending => hdr_inv a' q' flat /\ ar_eos a' = false /\ uni_header flat = None /\ terminated q = false
-    | Ready (Err PEnd) => uni_header flat = None
+    | Ready (Err PEnd) => uni_header flat = None /\ terminated q = true
     | Ready (Ok _) =>
         exists ty sid rest, uni_header flat = Some (ty, sid, rest) /\ ar_ty a' = Some ty /\ ar_sid a' = sid /\
                             view a' q' = rest /\ wf_bytes (ar_buf a') /\ ar_eos a' = false
@@ -488,7 +488,7 @@ Proof.
   - destruct Hc as (s' & q1 & Hr & Hty & Hsid & Hv & Hw & _). inversion Hr; subst.
     exists ty, (ar_sid s'), (view s' q1). repeat split; auto. congruence.
   - destruct (terminated q).
-    + destruct Hc as (s' & q1 & Hr). inversion Hr; subst. reflexivity.
+    + destruct Hc as (s' & q1 & Hr). inversion Hr; subst. auto.
     + destruct Hc as (s' & Hr & Hi). inversion Hr; subst. split; [exact Hi|]. split; [congruence|]. auto.
 Qed.
 
@@ -1071,108 +1071,305 @@ Proof.
     destruct f; try discriminate; reflexivity.
 Qed.
 
+
+(* ---------- the streams that left pending_recv_streams ---------- *)
+Record seen_frozen (c : conn) (w : world) (x : sent) : Prop := {
+  sf_res : forall id ty, In (id, Some ty) (c_seen c) ->
+           In id (sn_ann x) /\ hdr_type x id = Some ty /\ (unknown_type ty -> exists code, In (id, code) (stops_of w));
+  sf_drop : forall id, In (id, None) (c_seen c) ->
+            In id (sn_ann x) /\ uni_header (sn_flat x id) = None /\ sn_end x id <> Open
+}.
+Record seen_live (P : list (N * arecv)) (c : conn) (w : world) (x : sent) : Prop := {
+  sl_all : forall id, In id (sn_ann x) -> In id (waiting P w) \/ In id (map fst (c_seen c));
+  sl_ctl : forall id, In (id, Some ST_CONTROL) (c_seen c) -> is_ctl c id;
+  sl_enc1 : forall a b, In (a, Some ST_QPACK_ENCODER) (c_seen c) -> In (b, Some ST_QPACK_ENCODER) (c_seen c) -> a = b;
+  sl_enc0 : c_enc c = false -> forall a, ~ In (a, Some ST_QPACK_ENCODER) (c_seen c);
+  sl_dec1 : forall a b, In (a, Some ST_QPACK_DECODER) (c_seen c) -> In (b, Some ST_QPACK_DECODER) (c_seen c) -> a = b;
+  sl_dec0 : c_dec c = false -> forall a, ~ In (a, Some ST_QPACK_DECODER) (c_seen c)
+}.
+
+Lemma seen_frozen_ext c c' w w' x :
+  c_seen c' = c_seen c -> (forall e, In e (stops_of w) -> In e (stops_of w')) -> seen_frozen c w x -> seen_frozen c' w' x.
+Proof.
+  intros Hs Hst [F1 F2]. constructor; rewrite Hs; auto.
+  intros id ty Hin. destruct (F1 id ty Hin) as (A & B & C). repeat split; auto.
+  intros Hu. destruct (C Hu) as [code Hc]. exists code. auto.
+Qed.
+
+Lemma seen_live_ext P c c' w w' x :
+  c_seen c' = c_seen c -> (forall id, is_ctl c id -> is_ctl c' id) -> c_enc c' = c_enc c -> c_dec c' = c_dec c ->
+  w_incoming w' = w_incoming w -> seen_live P c w x -> seen_live P c' w' x.
+Proof.
+  intros Hs Hc He Hd Hi [L1 L2 L3 L4 L5 L6].
+  assert (Hw : waiting P w' = waiting P w) by (unfold waiting; rewrite Hi; reflexivity).
+  constructor; rewrite ?Hs, ?Hw, ?He, ?Hd; auto.
+Qed.
+
+(* a stream leaves the waiting set and is logged *)
+Lemma in_seen_snoc (c : conn) id ty e : In e (c_seen (log_seen c id ty)) <-> In e (c_seen c) \/ e = (id, ty).
+Proof. cbn [c_seen log_seen]. rewrite in_app_iff. cbn [In]. intuition. Qed.
+
+Lemma seen_frozen_add c w x id ty :
+  seen_frozen c w x -> In id (sn_ann x) ->
+  match ty with
+  | Some t => hdr_type x id = Some t /\ (unknown_type t -> exists code, In (id, code) (stops_of w))
+  | None => uni_header (sn_flat x id) = None /\ sn_end x id <> Open
+  end ->
+  seen_frozen (log_seen c id ty) w x.
+Proof.
+  intros [F1 F2] Ha Hty. constructor.
+  - intros j t Hin. apply in_seen_snoc in Hin. destruct Hin as [Hin|Heq]; [auto|]. inversion Heq; subst. tauto.
+  - intros j Hin. apply in_seen_snoc in Hin. destruct Hin as [Hin|Heq]; [auto|]. inversion Heq; subst. tauto.
+Qed.
+
 Lemma hdr_type_of x id ty sid rest : uni_header (sn_flat x id) = Some (ty, sid, rest) -> hdr_type x id = Some ty.
 Proof. unfold hdr_type. intros ->. reflexivity. Qed.
 
 Definition just_polled (x : sent) (P : list (N * arecv)) : Prop :=
   forall id a, In (id, a) P -> uni_header (sn_flat x id) = None /\ sn_end x id = Open.
 
+Lemma kind_other ty :
+  match kind_assoc ty into_stream_arms with
+  | UControl => ty = ST_CONTROL
+  | UEncoder => ty = ST_QPACK_ENCODER
+  | UDecoder => ty = ST_QPACK_DECODER
+  | _ => ty <> ST_CONTROL /\ ty <> ST_QPACK_ENCODER /\ ty <> ST_QPACK_DECODER
+  end.
+Proof.
+  unfold kind_assoc, into_stream_arms, st_CONTROL, st_PUSH, st_ENCODER, st_DECODER, st_WEBTRANSPORT_UNI,
+    ST_CONTROL, ST_QPACK_ENCODER, ST_QPACK_DECODER.
+  repeat match goal with |- context [if ?t =? ?k then _ else _] => destruct (N.eqb_spec t k); [subst; try reflexivity; repeat split; discriminate|] end.
+  repeat split; assumption.
+Qed.
+
+Lemma seen_live_leave kept rest id (a : arecv) c c' w w' x ty :
+  seen_live (kept ++ (id, a) :: rest) c w x ->
+  c_seen c' = c_seen c ++ [(id, ty)] -> w_incoming w' = w_incoming w ->
+  (forall j, is_ctl c j -> is_ctl c' j) ->
+  (ty = Some ST_CONTROL -> is_ctl c' id) ->
+  ((ty = Some ST_QPACK_ENCODER /\ c_enc c = false /\ c_enc c' = true) \/ (ty <> Some ST_QPACK_ENCODER /\ c_enc c' = c_enc c)) ->
+  ((ty = Some ST_QPACK_DECODER /\ c_dec c = false /\ c_dec c' = true) \/ (ty <> Some ST_QPACK_DECODER /\ c_dec c' = c_dec c)) ->
+  seen_live (kept ++ rest) c' w' x.
+Proof.
+  intros [L1 L2 L3 L4 L5 L6] Hs Hi Hc Hct He Hd.
+  assert (Hin : forall e, In e (c_seen c') <-> In e (c_seen c) \/ e = (id, ty)).
+  { intros e. rewrite Hs, in_app_iff. cbn [In]. intuition. }
+  constructor.
+  - intros j Hj. destruct (L1 j Hj) as [Hw|Hsn].
+    + rewrite waiting_mid in Hw. apply in_app_iff in Hw. destruct Hw as [Hw|[Heq|Hw]].
+      * left. rewrite waiting_drop. unfold waiting in *. rewrite Hi. apply in_app_iff. auto.
+      * right. subst j. apply in_map_iff. exists (id, ty). split; [reflexivity|]. apply Hin. auto.
+      * left. rewrite waiting_drop. apply in_app_iff. auto.
+    + right. apply in_map_iff in Hsn. destruct Hsn as (e & He1 & He2). apply in_map_iff. exists e. split; [exact He1|]. apply Hin. auto.
+  - intros j Hj. apply Hin in Hj. destruct Hj as [Hj|Heq]; [apply Hc; apply L2; exact Hj|]. inversion Heq; subst. auto.
+  - intros p q Hp Hq. apply Hin in Hp. apply Hin in Hq.
+    destruct He as [(Ht & He0 & _)|[Hnt _]].
+    + destruct Hp as [Hp|Hp]; [exfalso; exact (L4 He0 p Hp)|]. destruct Hq as [Hq|Hq]; [exfalso; exact (L4 He0 q Hq)|]. congruence.
+    + destruct Hp as [Hp|Hp]; [|inversion Hp; congruence]. destruct Hq as [Hq|Hq]; [|inversion Hq; congruence]. auto.
+  - intros Hf p Hp. apply Hin in Hp. destruct He as [(Ht & He0 & He1)|[Hnt Hsame]]; [congruence|].
+    destruct Hp as [Hp|Hp]; [|inversion Hp; congruence]. rewrite Hsame in Hf. exact (L4 Hf p Hp).
+  - intros p q Hp Hq. apply Hin in Hp. apply Hin in Hq.
+    destruct Hd as [(Ht & He0 & _)|[Hnt _]].
+    + destruct Hp as [Hp|Hp]; [exfalso; exact (L6 He0 p Hp)|]. destruct Hq as [Hq|Hq]; [exfalso; exact (L6 He0 q Hq)|]. congruence.
+    + destruct Hp as [Hp|Hp]; [|inversion Hp; congruence]. destruct Hq as [Hq|Hq]; [|inversion Hq; congruence]. auto.
+  - intros Hf p Hp. apply Hin in Hp. destruct Hd as [(Ht & He0 & He1)|[Hnt Hsame]]; [congruence|].
+    destruct Hp as [Hp|Hp]; [|inversion Hp; congruence]. rewrite Hsame in Hf. exact (L6 Hf p Hp).
+Qed.
+
+Lemma seen_live_keep kept rest id (a a' : arecv) c w w' x :
+  seen_live (kept ++ (id, a) :: rest) c w x -> w_incoming w' = w_incoming w ->
+  seen_live (kept ++ (id, a') :: rest) c w' x.
+Proof.
+  intros [L1 L2 L3 L4 L5 L6] Hi. constructor; auto.
+  intros j Hj. destruct (L1 j Hj) as [Hw|Hs]; [left|right; exact Hs].
+  rewrite waiting_mid in *. unfold waiting in *. rewrite Hi. exact Hw.
+Qed.
+
 Lemma par_iter_bytes wt x : forall todo kept c w wr r c' w' wr',
   par_iter wt todo kept (c, w, wr) = (r, (c', w', wr')) ->
   c_err c = None -> c_cause c = None ->
   live_p (kept ++ todo) c w x -> frozen c w x -> just_polled x kept -> ctl_inv2 true c w x ->
-  frozen c' w' x /\ ctl_inv2 true c' w' x /\ (c_err c' = None -> live c' w' x /\ just_polled x (c_pending c')).
+  seen_frozen c w x -> seen_live (kept ++ todo) c w x ->
+  frozen c' w' x /\ ctl_inv2 true c' w' x /\ seen_frozen c' w' x /\
+  (c_err c' = None -> live c' w' x /\ just_polled x (c_pending c') /\ seen_live (c_pending c') c' w' x).
 Proof.
-  induction todo as [|[id a] rest IH]; intros kept c w wr r c' w' wr' H He Hcn Hl Hf Hk Hci; cbn [par_iter] in H.
-  - inversion H; subst. split; [|split].
+  induction todo as [|[id a] rest IH]; intros kept c w wr r c' w' wr' H He Hcn Hl Hf Hk Hci Hsf Hsl; cbn [par_iter] in H.
+  - inversion H; subst. rewrite app_nil_r in Hl, Hsl. split; [|split; [|split]].
     + eapply frozen_ext; [| |exact Hf]; reflexivity.
     + eapply ctl_inv2_ext; [| | | | | |exact Hci]; auto.
-    + intros _. rewrite app_nil_r in Hl. split; [|exact Hk].
-      unfold live. cbn [c_pending set_pending]. eapply live_p_ext; [| | |exact Hl]; reflexivity.
+    + eapply seen_frozen_ext; [| |exact Hsf]; auto.
+    + intros _. split; [|split; [exact Hk|]].
+      * unfold live. cbn [c_pending set_pending]. eapply live_p_ext; [| | |exact Hl]; reflexivity.
+      * cbn [c_pending set_pending]. eapply seen_live_ext; [| | | | |exact Hsl]; auto.
   - destruct (lv_pend _ _ _ _ Hl id a) as [Hh Heos].
     { apply in_app_iff. right. left. reflexivity. }
     destruct (poll_type_cases a (rxq w id) (sn_flat x id) Hh Heos) as (p & a' & q' & Hpt & (pre & Hq & Hpre) & Hcase).
     rewrite Hpt in H.
     pose proof (head_facts kept rest id a c w x Hl) as (Hann & Hnw & Hnd & Hnc & Hninc & Hns).
     pose proof (live_drop kept rest id a c w x pre q' Hl Hq Hpre) as Hdrop.
-    assert (Hf1 : forall cc, c_cause cc = c_cause c -> frozen cc (set_rxq w id q') x).
-    { intros cc Hcc. eapply frozen_ext; [| |exact Hf]; [reflexivity|exact Hcc]. }
-    (* the control stream, if there is one, is another stream: its part of the state is not touched *)
-    assert (Hci1 : forall cc ww, c_control cc = c_control c -> c_ctl0 cc = c_ctl0 c -> c_trace cc = c_trace c ->
-              c_taken cc = c_taken c -> (forall z, c_cause cc = Some z -> ctl_cause z = true -> c_cause c = Some z) ->
-              (forall j, j <> id -> rxq ww j = rxq w j) -> ctl_inv2 true cc ww x).
-    { intros cc ww E1 E2 E3 E4 Ez Eq. eapply ctl_inv2_ext; [exact E1|exact E2|exact E3|exact E4|exact Ez| |exact Hci].
-      intros j fs0 Hj. apply Eq. intros ->. apply Hnc. exists fs0. exact Hj. }
-    assert (Hother : forall j, j <> id -> rxq (set_rxq w id q') j = rxq w j) by (intros j Hj; apply rxq_set_other; exact Hj).
-    assert (Hfailed : forall z code,
-              @fail unit z code (set_pending c (kept ++ rest), set_rxq w id q', wr) = (r, (c', w', wr')) ->
-              ctl_cause z = false -> ctl_inv2 true c' w' x).
-    { intros z code Hfl Hz. rewrite fail_spec in Hfl. cbn [c_err set_pending] in Hfl. rewrite He in Hfl. inversion Hfl; subst.
-      apply Hci1; auto. cbn [c_cause set_err]. intros z0 Hz0 Hc0. inversion Hz0; subst. congruence. }
+    destruct (q'_good kept rest id a c w x pre q' Hl Hq Hpre) as [[Hqok Hrok] Hqe'].
+    set (w1 := set_rxq w id q') in *.
+    assert (Hst1 : stops_of w1 = stops_of w) by reflexivity.
+    assert (Hother : forall j, j <> id -> rxq w1 j = rxq w j) by (intros j Hj; apply rxq_set_other; exact Hj).
+    (* the logged connection state *)
+    assert (Hlog : forall ty0, let cs := log_seen c id ty0 in
+              live_p (kept ++ rest) cs w1 x /\ frozen cs w1 x /\ ctl_inv2 true cs w1 x /\ c_err cs = None /\ c_cause cs = None).
+    { intros ty0 cs. split; [eapply live_p_ext; [| | |exact Hdrop]; reflexivity|].
+      split; [eapply frozen_ext; [| |exact Hf]; reflexivity|].
+      split; [|auto].
+      eapply ctl_inv2_ext; [reflexivity|reflexivity|reflexivity|reflexivity|auto| |exact Hci].
+      intros j fs0 Hj. apply Hother. intros ->. apply Hnc. exists fs0. exact Hj. }
     destruct p as [[u|e|n]|].
     + (* the header is complete *)
       destruct Hcase as (ty & sid & rst & Hhd & Hty & Hsid & Hv & Hw & Heos').
-      rewrite (into_stream_kind_ok a' ty sid rst _ Hhd Hty Hsid) in H.
+      rewrite (into_stream_kind_ok a' ty sid rst _ Hhd Hty Hsid), Hty in H.
       pose proof (hdr_type_of x id ty sid rst Hhd) as Htype.
-      destruct (q'_good kept rest id a c w x pre q' Hl Hq Hpre) as [[Hqok Hrok] Hqe'].
-      destruct (kind_assoc ty into_stream_arms) eqn:Hkind.
+      set (cs := log_seen c id (Some ty)) in *.
+      destruct (Hlog (Some ty)) as (Hdrop' & Hf' & Hci' & He' & Hcn'). fold cs in Hdrop', Hf', Hci', He', Hcn'.
+      pose proof (kind_other ty) as Hko.
+      (* generic continuation: the state (c2, w2) handed to the rest of the loop *)
+      assert (Hnext : forall c2 w2,
+                par_iter wt rest kept (c2, w2, wr) = (r, (c', w', wr')) ->
+                c_err c2 = None -> c_cause c2 = None -> live_p (kept ++ rest) c2 w2 x -> frozen c2 w2 x ->
+                ctl_inv2 true c2 w2 x -> seen_frozen c2 w2 x -> seen_live (kept ++ rest) c2 w2 x ->
+                frozen c' w' x /\ ctl_inv2 true c' w' x /\ seen_frozen c' w' x /\
+                (c_err c' = None -> live c' w' x /\ just_polled x (c_pending c') /\ seen_live (c_pending c') c' w' x)).
+      { intros c2 w2 Hp A1 A2 A3 A4 A5 A6 A7. eapply IH; eauto. }
+      (* a failure: the connection dies, the frozen facts stay *)
+      assert (Hdead : forall z code, @fail unit z code (set_pending cs (kept ++ rest), w1, wr) = (r, (c', w', wr')) ->
+                ctl_cause z = false -> z <> CzHeaderInternal ->
+                (z = CzTwoControl -> two_of x ST_CONTROL) -> (z = CzTwoEncoder -> two_of x ST_QPACK_ENCODER) ->
+                (z = CzTwoDecoder -> two_of x ST_QPACK_DECODER) -> (unknown_type ty -> False) ->
+                frozen c' w' x /\ ctl_inv2 true c' w' x /\ seen_frozen c' w' x /\
+                (c_err c' = None -> live c' w' x /\ just_polled x (c_pending c') /\ seen_live (c_pending c') c' w' x)).
+      { intros z code Hfl Hzc Hzi T1 T2 T3 Hnu.
+        pose proof Hfl as Hfl2. rewrite fail_spec in Hfl2. cbn [c_err set_pending] in Hfl2. rewrite He' in Hfl2. inversion Hfl2; subst r c' w' wr'.
+        eapply frozen_fail in Hfl; [| |eapply frozen_ext; [| |exact Hf']; reflexivity| | | |]; try exact He'; auto.
+        destruct Hfl as [Hfz Hne]. split; [exact Hfz|]. split; [|split; [|intros Hx; congruence]].
+        - eapply (ctl_inv2_ext true cs _ w1); [reflexivity|reflexivity|reflexivity|reflexivity| | |exact Hci'].
+          + cbn [c_cause set_err set_pending]. intros z0 Hz0 Hc0. inversion Hz0; subst. congruence.
+          + intros j fs0 _. reflexivity.
+        - apply (seen_frozen_ext cs _ w1); [reflexivity|auto|].
+          apply seen_frozen_add; [eapply seen_frozen_ext; [| |exact Hsf]; auto|exact Hann|]. split; [exact Htype|]. intros Hu. destruct (Hnu Hu). }
+      assert (Hsf1 : (unknown_type ty -> False) -> seen_frozen cs w1 x).
+      { intros Hnu. apply seen_frozen_add; [eapply seen_frozen_ext; [| |exact Hsf]; auto|exact Hann|].
+        split; [exact Htype|]. intros Hu. destruct (Hnu Hu). }
+      destruct (kind_assoc ty into_stream_arms) eqn:Hkind;
+        change (c_control cs) with (c_control c) in H; change (c_enc cs) with (c_enc c) in H; change (c_dec cs) with (c_dec c) in H.
       * (* control *)
-        apply kind_control in Hkind. subst ty.
+        subst ty.
         destruct (c_control c) as [[id0 fs0]|] eqn:Hctl.
-        -- pose proof (Hfailed _ _ H eq_refl) as Hcf.
-           eapply frozen_fail in H; [| |apply Hf1; reflexivity| | | |]; try discriminate; try exact He.
-           ++ destruct H as [Hfz Hne]. split; [exact Hfz|]. split; [exact Hcf|]. intros Hx. congruence.
-           ++ intros _. destruct (lv_ctl _ _ _ _ Hl id0) as (Ha0 & Hn0 & Ht0); [exists fs0; exact Hctl|].
-              exists id0, id. repeat split; auto. intros ->. apply Hn0. unfold waiting. apply in_app_iff. right. apply in_ids_mid.
-        -- eapply IH in H; [exact H|exact He|exact Hcn| |apply Hf1; reflexivity|exact Hk|].
-           ++ eapply live_claim_control; [exact Hdrop|exact Hctl|reflexivity|reflexivity|reflexivity|exact Hann|exact Hnw|exact Htype].
+        -- eapply Hdead; [exact H|reflexivity|discriminate| |discriminate|discriminate|unfold unknown_type; congruence].
+           intros _. destruct (lv_ctl _ _ _ _ Hl id0) as (Ha0 & Hn0 & Ht0); [exists fs0; exact Hctl|].
+           exists id0, id. repeat split; auto. intros ->. apply Hn0. unfold waiting. apply in_app_iff. right. apply in_ids_mid.
+        -- eapply Hnext; [exact H|exact He'|exact Hcn'| | | | |].
+           ++ eapply live_claim_control; [exact Hdrop'|exact Hctl|reflexivity|reflexivity|reflexivity|exact Hann|exact Hnw|exact Htype].
+           ++ eapply frozen_ext; [| |exact Hf']; reflexivity.
            ++ unfold ctl_inv2 in Hci. rewrite Hctl in Hci. destruct Hci as [Hci _].
-              apply (ctl_claim c (set_rxq w id q') x id a' q' sid); auto.
+              apply (ctl_claim cs w1 x id a' q' sid); auto.
               ** rewrite <- Hv in Hhd. exact Hhd.
               ** apply rxq_set_same.
+           ++ eapply seen_frozen_ext; [| |apply Hsf1; unfold unknown_type; congruence]; auto.
+           ++ eapply (seen_live_leave kept rest id a c); [exact Hsl|reflexivity|reflexivity| | | |].
+              ** intros j [fj Hj]. congruence.
+              ** intros _. eexists. reflexivity.
+              ** right. split; [discriminate|reflexivity].
+              ** right. split; [discriminate|reflexivity].
       * (* push *)
-        eapply IH in H; [exact H|exact He|exact Hcn|exact Hdrop|apply Hf1; reflexivity|exact Hk|apply Hci1; auto].
+        destruct Hko as (K1 & K2 & K3).
+        eapply Hnext; [exact H|exact He'|exact Hcn'|exact Hdrop'|exact Hf'|exact Hci'| |].
+        -- apply Hsf1. unfold unknown_type. congruence.
+        -- eapply (seen_live_leave kept rest id a c); [exact Hsl|reflexivity|reflexivity|auto| | |].
+           ++ intros Hx; inversion Hx; congruence.
+           ++ right. split; [intros Hx; inversion Hx; congruence|reflexivity].
+           ++ right. split; [intros Hx; inversion Hx; congruence|reflexivity].
       * (* encoder *)
-        apply kind_encoder in Hkind. subst ty.
+        subst ty.
         destruct (c_enc c) eqn:Henc.
-        -- pose proof (Hfailed _ _ H eq_refl) as Hcf.
-           eapply frozen_fail in H; [| |apply Hf1; reflexivity| | | |]; try discriminate; try exact He.
-           ++ destruct H as [Hfz Hne]. split; [exact Hfz|]. split; [exact Hcf|]. intros Hx. congruence.
-           ++ intros _. destruct (lv_enc _ _ _ _ Hl Henc) as (id0 & Ha0 & Hn0 & Ht0).
-              exists id0, id. repeat split; auto. intros ->. apply Hn0. unfold waiting. apply in_app_iff. right. apply in_ids_mid.
-        -- eapply IH in H; [exact H|exact He|exact Hcn| |apply Hf1; reflexivity|exact Hk|apply Hci1; auto].
-           eapply live_claim_enc; [exact Hdrop|reflexivity|reflexivity|exact Hann|exact Hnw|exact Htype].
+        -- eapply Hdead; [exact H|reflexivity|discriminate|discriminate| |discriminate|unfold unknown_type; congruence].
+           intros _. destruct (lv_enc _ _ _ _ Hl Henc) as (id0 & Ha0 & Hn0 & Ht0).
+           exists id0, id. repeat split; auto. intros ->. apply Hn0. unfold waiting. apply in_app_iff. right. apply in_ids_mid.
+        -- eapply Hnext; [exact H|exact He'|exact Hcn'| | | | |].
+           ++ eapply live_claim_enc; [exact Hdrop'|reflexivity|reflexivity|exact Hann|exact Hnw|exact Htype].
+           ++ eapply frozen_ext; [| |exact Hf']; reflexivity.
+           ++ eapply ctl_inv2_ext; [| | | | | |exact Hci']; auto.
+           ++ eapply seen_frozen_ext; [| |apply Hsf1; unfold unknown_type; congruence]; auto.
+           ++ eapply (seen_live_leave kept rest id a c); [exact Hsl|reflexivity|reflexivity|auto| | |].
+              ** discriminate.
+              ** left. auto.
+              ** right. split; [discriminate|reflexivity].
       * (* decoder *)
-        apply kind_decoder in Hkind. subst ty.
+        subst ty.
         destruct (c_dec c) eqn:Hdec.
-        -- pose proof (Hfailed _ _ H eq_refl) as Hcf.
-           eapply frozen_fail in H; [| |apply Hf1; reflexivity| | | |]; try discriminate; try exact He.
-           ++ destruct H as [Hfz Hne]. split; [exact Hfz|]. split; [exact Hcf|]. intros Hx. congruence.
-           ++ intros _. destruct (lv_dec _ _ _ _ Hl Hdec) as (id0 & Ha0 & Hn0 & Ht0).
-              exists id0, id. repeat split; auto. intros ->. apply Hn0. unfold waiting. apply in_app_iff. right. apply in_ids_mid.
-        -- eapply IH in H; [exact H|exact He|exact Hcn| |apply Hf1; reflexivity|exact Hk|apply Hci1; auto].
-           eapply live_claim_dec; [exact Hdrop|reflexivity|reflexivity|exact Hann|exact Hnw|exact Htype].
+        -- eapply Hdead; [exact H|reflexivity|discriminate|discriminate|discriminate| |unfold unknown_type; congruence].
+           intros _. destruct (lv_dec _ _ _ _ Hl Hdec) as (id0 & Ha0 & Hn0 & Ht0).
+           exists id0, id. repeat split; auto. intros ->. apply Hn0. unfold waiting. apply in_app_iff. right. apply in_ids_mid.
+        -- eapply Hnext; [exact H|exact He'|exact Hcn'| | | | |].
+           ++ eapply live_claim_dec; [exact Hdrop'|reflexivity|reflexivity|exact Hann|exact Hnw|exact Htype].
+           ++ eapply frozen_ext; [| |exact Hf']; reflexivity.
+           ++ eapply ctl_inv2_ext; [| | | | | |exact Hci']; auto.
+           ++ eapply seen_frozen_ext; [| |apply Hsf1; unfold unknown_type; congruence]; auto.
+           ++ eapply (seen_live_leave kept rest id a c); [exact Hsl|reflexivity|reflexivity|auto| | |].
+              ** discriminate.
+              ** right. split; [discriminate|reflexivity].
+              ** left. auto.
       * (* WebTransport *)
+        destruct Hko as (K1 & K2 & K3).
+        assert (Hslw : forall c2, c_seen c2 = c_seen cs -> c_control c2 = c_control c -> c_enc c2 = c_enc c -> c_dec c2 = c_dec c ->
+                  seen_live (kept ++ rest) c2 w1 x).
+        { intros c2 E1 E2 E3 E4. eapply (seen_live_leave kept rest id a c); [exact Hsl|exact E1|reflexivity| | | |].
+          - intros j [fj Hj]. exists fj. congruence.
+          - intros Hx; inversion Hx; congruence.
+          - right. split; [intros Hx; inversion Hx; congruence|exact E3].
+          - right. split; [intros Hx; inversion Hx; congruence|exact E4]. }
         destruct wt.
-        -- eapply IH in H; [exact H|exact He|exact Hcn| |apply Hf1; reflexivity|exact Hk|apply Hci1; auto].
-           eapply live_p_ext; [| | |exact Hdrop]; reflexivity.
-        -- eapply IH in H; [exact H|exact He|exact Hcn|exact Hdrop|apply Hf1; reflexivity|exact Hk|apply Hci1; auto].
+        -- eapply Hnext; [exact H|exact He'|exact Hcn'| | | | |].
+           ++ eapply live_p_ext; [| | |exact Hdrop']; reflexivity.
+           ++ eapply frozen_ext; [| |exact Hf']; reflexivity.
+           ++ eapply ctl_inv2_ext; [| | | | | |exact Hci']; auto.
+           ++ eapply seen_frozen_ext; [| |apply Hsf1; unfold unknown_type; congruence]; auto.
+           ++ apply Hslw; reflexivity.
+        -- eapply Hnext; [exact H|exact He'|exact Hcn'|exact Hdrop'|exact Hf'|exact Hci'| |].
+           ++ apply Hsf1. unfold unknown_type. congruence.
+           ++ apply Hslw; reflexivity.
       * (* unknown type: refused *)
-        eapply IH in H; [exact H|exact He|exact Hcn| | |exact Hk|].
-        -- apply live_add_stop; [exact Hdrop|exact Hnw].
+        destruct Hko as (K1 & K2 & K3).
+        eapply Hnext; [exact H|exact He'|exact Hcn'| | | | |].
+        -- apply live_add_stop; [exact Hdrop'|exact Hnw].
         -- eapply frozen_add_stop; eauto.
-        -- apply Hci1; auto.
+        -- eapply ctl_inv2_ext; [| | | | | |exact Hci']; auto.
+        -- apply seen_frozen_add; [eapply seen_frozen_ext; [| |exact Hsf]; [reflexivity|]|exact Hann|].
+           ++ intros e0 He0. unfold stops_of, add_stop. cbn. apply in_app_iff. left. exact He0.
+           ++ split; [exact Htype|]. intros _. exists code_par_stop_unknown. unfold stops_of, add_stop. cbn. apply in_app_iff. right. left. reflexivity.
+        -- eapply (seen_live_leave kept rest id a c); [exact Hsl|reflexivity|reflexivity|auto| | |].
+           ++ intros Hx; inversion Hx; congruence.
+           ++ right. split; [intros Hx; inversion Hx; congruence|reflexivity].
+           ++ right. split; [intros Hx; inversion Hx; congruence|reflexivity].
     + destruct e as [|code|qe]; try contradiction.
       (* ended before the header was complete: dropped *)
-      eapply IH in H; [exact H|exact He|exact Hcn|exact Hdrop|apply Hf1; reflexivity|exact Hk|apply Hci1; auto].
+      destruct Hcase as [Hnone Hterm].
+      destruct (Hlog None) as (Hdrop' & Hf' & Hci' & He' & Hcn').
+      eapply IH in H; [exact H|exact He'|exact Hcn'|exact Hdrop'|exact Hf'|exact Hk|exact Hci'| |].
+      * apply seen_frozen_add; [eapply seen_frozen_ext; [| |exact Hsf]; auto|exact Hann|].
+        split; [exact Hnone|]. destruct (lv_q _ _ _ _ Hl id Hnc) as [_ Hqe]. rewrite <- Hqe.
+        intros Ho. apply terminated_qend' in Ho. congruence.
+      * eapply (seen_live_leave kept rest id a c); [exact Hsl|reflexivity|reflexivity|auto| | |].
+        -- discriminate.
+        -- right. split; [discriminate|reflexivity].
+        -- right. split; [discriminate|reflexivity].
     + contradiction.
     + (* still waiting *)
       destruct Hcase as (Hh' & Heos' & Hnone & Hterm).
-      eapply IH in H; [exact H|exact He|exact Hcn| |apply Hf1; reflexivity| |apply Hci1; auto].
+      eapply IH in H; [exact H|exact He|exact Hcn| | | | | |].
       * rewrite <- app_assoc. cbn [app]. eapply live_keep; eauto.
+      * eapply frozen_ext; [| |exact Hf]; reflexivity.
       * intros j b Hin. apply in_app_iff in Hin. destruct Hin as [Hin|[Heq|[]]]; [exact (Hk j b Hin)|].
         inversion Heq; subst. split; [exact Hnone|].
         destruct (lv_q _ _ _ _ Hl j Hnc) as [_ Hqe]. rewrite <- Hqe. apply terminated_qend'. exact Hterm.
+      * eapply ctl_inv2_ext; [reflexivity|reflexivity|reflexivity|reflexivity|auto| |exact Hci].
+        intros j fs0 Hj. apply Hother. intros ->. apply Hnc. exists fs0. exact Hj.
+      * eapply seen_frozen_ext; [| |exact Hsf]; auto.
+      * rewrite <- app_assoc. cbn [app]. eapply seen_live_keep; [exact Hsl|reflexivity].
 Qed.
 
 Lemma NoDup_app_swap {A} (a b : list A) : NoDup (a ++ b) -> NoDup (b ++ a).
@@ -1185,11 +1382,13 @@ Qed.
 Lemma poll_accept_recv_bytes wt x c w wr r c' w' wr' :
   poll_accept_recv wt (c, w, wr) = (r, (c', w', wr')) ->
   c_err c = None -> c_cause c = None -> live c w x -> frozen c w x -> ctl_inv2 true c w x ->
-  frozen c' w' x /\ ctl_inv2 true c' w' x /\ (c_err c' = None -> live c' w' x /\ just_polled x (c_pending c')).
+  seen_frozen c w x -> seen_live (c_pending c) c w x ->
+  frozen c' w' x /\ ctl_inv2 true c' w' x /\ seen_frozen c' w' x /\
+  (c_err c' = None -> live c' w' x /\ just_polled x (c_pending c') /\ seen_live (c_pending c') c' w' x).
 Proof.
-  intros H He Hcn Hl Hf Hci. unfold poll_accept_recv in H. rewrite He in H.
+  intros H He Hcn Hl Hf Hci Hsf Hsl. unfold poll_accept_recv in H. rewrite He in H.
   set (p := c_pending c ++ map (fun id => (id, ar_new)) (w_incoming w)) in *.
-  eapply (par_iter_bytes wt x p []) in H; [exact H|exact He|exact Hcn| | | |].
+  eapply (par_iter_bytes wt x p []) in H; [exact H|exact He|exact Hcn| | | | | |].
   4:{ eapply ctl_inv2_ext; [| | | | | |exact Hci]; auto. }
   - cbn [app]. destruct Hl as [L1 L2 L3 L4 L5 L6 L7 L8 L9 L10].
     assert (Hids : ids_of p = ids_of (c_pending c) ++ w_incoming w).
@@ -1215,6 +1414,12 @@ Proof.
     * intros j code Hs. rewrite Hwt. apply (L10 j code). exact Hs.
   - eapply frozen_ext; [| |exact Hf]; reflexivity.
   - intros j a [].
+  - eapply seen_frozen_ext; [| |exact Hsf]; auto.
+  - destruct Hsl as [S1 S2 S3 S4 S5 S6]. constructor; cbn [c_seen c_enc c_dec set_pending]; auto.
+    intros j Hj. destruct (S1 j Hj) as [Hw|Hs]; [left|right; exact Hs].
+    unfold waiting in *. cbn [w_incoming set_incoming app].
+    unfold p, ids_of. rewrite map_app, map_map. cbn [fst]. rewrite map_id.
+    apply in_app_iff in Hw. apply in_app_iff. unfold ids_of in Hw. tauto.
 Qed.
 
 
@@ -1269,7 +1474,7 @@ Qed.
 
 (* the parts of the connection the stream-level invariants read *)
 Definition stream_part (c : conn) :=
-  (c_pending c, c_control c, c_enc c, c_dec c, c_ctl0 c, c_trace c, c_taken c).
+  (c_pending c, c_control c, c_enc c, c_dec c, c_ctl0 c, c_trace c, c_taken c, c_seen c).
 
 Lemma after_frame_parts f c w wr r c' w' wr' :
   after_frame f (c, w, wr) = (r, (c', w', wr')) ->
@@ -1346,8 +1551,27 @@ Qed.
 Lemma stream_part_inv c c' :
   stream_part c' = stream_part c ->
   c_pending c' = c_pending c /\ c_control c' = c_control c /\ c_enc c' = c_enc c /\ c_dec c' = c_dec c /\
-  c_ctl0 c' = c_ctl0 c /\ c_trace c' = c_trace c /\ c_taken c' = c_taken c.
+  c_ctl0 c' = c_ctl0 c /\ c_trace c' = c_trace c /\ c_taken c' = c_taken c /\ c_seen c' = c_seen c.
 Proof. unfold stream_part. intros H. inversion H. auto 10. Qed.
+
+(* the log of the streams that left pending_recv_streams, with the same reading *)
+Definition sgood (c : conn) (w : world) (x : sent) : Prop :=
+  seen_frozen c w x /\ (c_err c = None -> seen_live (c_pending c) c w x).
+Lemma sgood_ext c c' w w' x :
+  c_seen c' = c_seen c -> c_pending c' = c_pending c -> (forall id, is_ctl c id -> is_ctl c' id) ->
+  c_enc c' = c_enc c -> c_dec c' = c_dec c -> w_incoming w' = w_incoming w -> stops_of w' = stops_of w ->
+  (c_err c' = None -> c_err c = None) -> sgood c w x -> sgood c' w' x.
+Proof.
+  intros H1 H2 H3 H4 H5 H6 H7 H8 [A B]. split.
+  - eapply seen_frozen_ext; [exact H1| |exact A]. rewrite H7. auto.
+  - intros He. rewrite H2. eapply seen_live_ext; [exact H1|exact H3|exact H4|exact H5|exact H6|]. auto.
+Qed.
+Lemma sgood_parts c c' w w' x :
+  stream_part c' = stream_part c -> wsame w w' -> (c_err c' = None -> c_err c = None) -> sgood c w x -> sgood c' w' x.
+Proof.
+  intros Hp (W1 & W2 & W3) He. apply stream_part_inv in Hp. destruct Hp as (A & B & C & D & _ & _ & _ & S).
+  apply sgood_ext; auto. intros id. unfold is_ctl. rewrite B. auto.
+Qed.
 
 Lemma live_parts c c' w w' x : stream_part c' = stream_part c -> wsame w w' -> live c w x -> live c' w' x.
 Proof.
@@ -1373,7 +1597,7 @@ Lemma ctl_parts g c c' w w' x :
   (forall z, c_cause c' = Some z -> ctl_cause z = true -> c_cause c = Some z) ->
   ctl_inv2 g c w x -> ctl_inv2 g c' w' x.
 Proof.
-  intros Hp Hw Hz. apply stream_part_inv in Hp. destruct Hp as (_ & B & _ & _ & E & F & G).
+  intros Hp Hw Hz. apply stream_part_inv in Hp. destruct Hp as (_ & B & _ & _ & E & F & G & _).
   apply ctl_inv2_ext; auto. intros id fs _. apply wsame_rxq. exact Hw.
 Qed.
 
@@ -1397,29 +1621,31 @@ Qed.
 
 Lemma poll_control_bytes wt x c w wr r c' w' wr' :
   poll_control wt (c, w, wr) = (r, (c', w', wr')) ->
-  c_err c = None -> c_cause c = None -> live c w x -> frozen c w x -> ctl_inv2 true c w x ->
-  frozen c' w' x /\ ctl_inv2 (cont r) c' w' x /\
+  c_err c = None -> c_cause c = None -> live c w x -> frozen c w x -> ctl_inv2 true c w x -> sgood c w x ->
+  frozen c' w' x /\ ctl_inv2 (cont r) c' w' x /\ sgood c' w' x /\
   (cont r = true -> live c' w' x /\ c_err c' = None /\ c_cause c' = None).
 Proof.
-  intros H He Hcn Hl Hf Hci. unfold poll_control in H. rewrite He in H.
+  intros H He Hcn Hl Hf Hci [Hsf Hsl]. specialize (Hsl He). unfold poll_control in H. rewrite He in H.
   destruct (poll_accept_recv wt (c, w, wr)) as [r1 [[c1 w1] wr1]] eqn:Hpar.
   pose proof (poll_accept_recv_frame _ _ _ _ _ _ _ _ Hpar) as (Hfp & -> & _).
-  pose proof (poll_accept_recv_bytes _ x _ _ _ _ _ _ _ Hpar He Hcn Hl Hf Hci) as (Hf1 & Hci1 & Hl1).
+  pose proof (poll_accept_recv_bytes _ x _ _ _ _ _ _ _ Hpar He Hcn Hl Hf Hci Hsf Hsl) as (Hf1 & Hci1 & Hsf1 & Hl1).
+  assert (Hsg1 : sgood c1 w1 x) by (split; [exact Hsf1|intros Hx; apply (Hl1 Hx)]).
   destruct Hfp as (_ & _ & Hes & Ho).
   assert (Hcn1 : c_err c1 = None -> c_cause c1 = None).
   { intros Hx. destruct Hes as [Hs|(_ & z & code & Hy & _)]; [unfold err_part in Hs; congruence|congruence]. }
   (* the cases in which poll_accept_recv's result is poll_control's *)
   assert (Hsame : forall (y : pres frame), (cont y = true -> err_of r1 = None) ->
             (y, (c1, w1, wr)) = (r, (c', w', wr')) ->
-            frozen c' w' x /\ ctl_inv2 (cont r) c' w' x /\ (cont r = true -> live c' w' x /\ c_err c' = None /\ c_cause c' = None)).
+            frozen c' w' x /\ ctl_inv2 (cont r) c' w' x /\ sgood c' w' x /\
+            (cont r = true -> live c' w' x /\ c_err c' = None /\ c_cause c' = None)).
   { intros y Hc Heq. inversion Heq; subst. split; [exact Hf1|]. split; [apply ctl_inv2_weaken; exact Hci1|].
-    intros Hx. specialize (Hc Hx). rewrite Hc in Ho. specialize (Ho He).
+    split; [exact Hsg1|]. intros Hx. specialize (Hc Hx). rewrite Hc in Ho. specialize (Ho He).
     destruct (Hl1 Ho) as [Hlv _]. auto. }
   destruct r1 as [u| |e|n| |];
     try (eapply Hsame; [|exact H]; intros Hx; try reflexivity; discriminate Hx).
   cbn [err_of] in Ho. specialize (Ho He). destruct (Hl1 Ho) as [Hlv1 _]. specialize (Hcn1 Ho).
   destruct (c_control c1) as [[id fs]|] eqn:Hctl.
-  2:{ inversion H; subst. split; [exact Hf1|]. split; [exact Hci1|]. intros _. auto. }
+  2:{ inversion H; subst. split; [exact Hf1|]. split; [exact Hci1|]. split; [exact Hsg1|]. intros _. auto. }
   destruct (poll_next (fs_with_q fs (rxq w1 id))) as [pr fs'] eqn:Hpn.
   set (c2 := set_ghost (set_control c1 (Some (id, fs_with_q fs' []))) (c_ctl0 c1) (c_trace c1 ++ [CallAuto])) in *.
   set (w2 := set_rxq w1 id (st_q fs')) in *.
@@ -1434,10 +1660,15 @@ Proof.
   assert (Hafter : forall c3 w3, stream_part c3 = stream_part (taken_by c2 pr) -> wsame w2 w3 ->
             (forall z, c_cause c3 = Some z -> cause_matches z pr) ->
             (c_cause c3 = None \/ exists z, c_cause c3 = Some z /\ (ctl_cause z = true \/ exists f, z = CzFrame f)) ->
-            frozen c3 w3 x /\ ctl_inv2 (goes_on pr) c3 w3 x /\ live c3 w3 x).
-  { intros c3 w3 Hp Hw Hcm Hcz. pose proof (stream_part_inv _ _ Hp) as (P1 & P2 & P3 & P4 & P5 & P6 & P7).
+            frozen c3 w3 x /\ ctl_inv2 (goes_on pr) c3 w3 x /\ live c3 w3 x /\ sgood c3 w3 x).
+  { intros c3 w3 Hp Hw Hcm Hcz. pose proof (stream_part_inv _ _ Hp) as (P1 & P2 & P3 & P4 & P5 & P6 & P7 & P8).
+    assert (Hpend : c_pending (taken_by c2 pr) = c_pending c1) by (unfold taken_by; destruct pr as [[[f|]|e0|n0]|]; reflexivity).
+    assert (Hcc : c_control (taken_by c2 pr) = Some (id, fs_with_q fs' [])) by (unfold taken_by; destruct pr as [[[f|]|e0|n0]|]; reflexivity).
+    assert (Henc : c_enc (taken_by c2 pr) = c_enc c1) by (unfold taken_by; destruct pr as [[[f|]|e0|n0]|]; reflexivity).
+    assert (Hdec : c_dec (taken_by c2 pr) = c_dec c1) by (unfold taken_by; destruct pr as [[[f|]|e0|n0]|]; reflexivity).
+    assert (Hseen : c_seen (taken_by c2 pr) = c_seen c1) by (unfold taken_by; destruct pr as [[[f|]|e0|n0]|]; reflexivity).
     destruct (ctl_poll c1 w1 x id fs pr fs' c3 Hctl Hci1 Hpn P2 P5 P6 P7 Hcm) as (Hc3 & _).
-    split; [|split].
+    split; [|split; [|split]].
     - eapply frozen_parts; [| |exact Hf1].
       + destruct Hw as (A & B & C). rewrite C. reflexivity.
       + rewrite Hcn1. destruct Hcz as [Hz|Hz]; [left; congruence|right; exact Hz].
@@ -1445,42 +1676,46 @@ Proof.
       intros j fs0 _. apply wsame_rxq. exact Hw.
     - assert (Hl2 : live_p (c_pending c1) c1 w2 x) by (apply live_ctl_queue; assumption).
       unfold live. rewrite P1.
-      assert (Hpend : c_pending (taken_by c2 pr) = c_pending c1) by (unfold taken_by; destruct pr as [[[f|]|e0|n0]|]; reflexivity).
       rewrite Hpend. eapply live_p_ext2; [| | |exact Hw|exact Hl2].
       + intros j. unfold is_ctl. rewrite P2.
-        assert (Hcc : c_control (taken_by c2 pr) = Some (id, fs_with_q fs' [])) by (unfold taken_by; destruct pr as [[[f|]|e0|n0]|]; reflexivity).
         rewrite Hcc, Hctl. split; intros [fs0 Hx]; inversion Hx; subst; eauto.
-      + rewrite P3. unfold taken_by; destruct pr as [[[f|]|e0|n0]|]; reflexivity.
-      + rewrite P4. unfold taken_by; destruct pr as [[[f|]|e0|n0]|]; reflexivity. }
+      + rewrite P3. exact Henc.
+      + rewrite P4. exact Hdec.
+    - destruct Hw as (W1 & W2 & W3). eapply sgood_ext; [| | | | | | | |exact Hsg1]; try congruence.
+      + intros j. unfold is_ctl. rewrite P2, Hcc, Hctl. intros [fs0 Hx]; inversion Hx; subst; eauto.
+      + rewrite W2. reflexivity.
+      + rewrite W3. reflexivity. }
   (* results that leave (c2, w2) *)
   assert (Hstay : forall (y : pres frame), cont y = goes_on pr -> (forall f, pr <> Ready (Ok (Some f))) ->
             (y, (c2, w2, wr)) = (r, (c', w', wr')) ->
-            frozen c' w' x /\ ctl_inv2 (cont r) c' w' x /\ (cont r = true -> live c' w' x /\ c_err c' = None /\ c_cause c' = None)).
+            frozen c' w' x /\ ctl_inv2 (cont r) c' w' x /\ sgood c' w' x /\
+            (cont r = true -> live c' w' x /\ c_err c' = None /\ c_cause c' = None)).
   { intros y Hy Hnf Heq. inversion Heq; subst.
     assert (Ht : taken_by c2 pr = c2) by (destruct pr as [[[f|]|e0|n0]|]; try reflexivity; exfalso; eapply Hnf; reflexivity).
-    destruct (Hafter c2 w2) as (A & B & C).
+    destruct (Hafter c2 w2) as (A & B & C & S).
     - rewrite Ht. reflexivity.
     - apply wsame_refl.
     - intros z Hz. cbn in Hz. congruence.
     - left. exact Hcn1.
-    - split; [exact A|]. split; [rewrite Hy; exact B|]. intros _. split; [exact C|]. split; [exact Ho|exact Hcn1]. }
+    - split; [exact A|]. split; [rewrite Hy; exact B|]. split; [exact S|]. intros _. split; [exact C|]. split; [exact Ho|exact Hcn1]. }
   (* failures of the control stream itself *)
   assert (Hfail : forall z code, ctl_cause z = true -> cause_matches z pr -> (forall f, pr <> Ready (Ok (Some f))) ->
             @fail frame z code (c2, w2, wr) = (r, (c', w', wr')) ->
-            frozen c' w' x /\ ctl_inv2 (cont r) c' w' x /\ (cont r = true -> live c' w' x /\ c_err c' = None /\ c_cause c' = None)).
+            frozen c' w' x /\ ctl_inv2 (cont r) c' w' x /\ sgood c' w' x /\
+            (cont r = true -> live c' w' x /\ c_err c' = None /\ c_cause c' = None)).
   { intros z code Hz Hm Hnf Hfl. apply fail_parts in Hfl; [|exact Ho]. destruct Hfl as (P & Hw & Hc & Hce & ->).
     assert (Ht : taken_by c2 pr = c2) by (destruct pr as [[[f|]|e0|n0]|]; try reflexivity; exfalso; eapply Hnf; reflexivity).
-    destruct (Hafter c' w') as (A & B & C).
+    destruct (Hafter c' w') as (A & B & C & S).
     - rewrite Ht. exact P.
     - exact Hw.
     - intros z0 Hz0. rewrite Hc in Hz0. inversion Hz0; subst. exact Hm.
     - right. exists z. auto.
-    - split; [exact A|]. split; [cbn [cont]; eapply ctl_inv2_false; exact B|discriminate]. }
+    - split; [exact A|]. split; [cbn [cont]; eapply ctl_inv2_false; exact B|]. split; [exact S|discriminate]. }
   destruct pr as [[[f|]|e|n]|].
   - (* a frame *)
     pose proof (control_frame_parts f (log_taken c2 f) w2 wr r c' w' wr' Ho H) as Hcf.
     destruct Hcf as (P & Hw & Hcase).
-    destruct (Hafter c' w') as (A & B & C).
+    destruct (Hafter c' w') as (A & B & C & S).
     + exact P.
     + exact Hw.
     + intros z Hz. destruct Hcase as [(Hc & _)|(Hc & _)]; rewrite Hc in Hz.
@@ -1488,11 +1723,11 @@ Proof.
       * inversion Hz; subst. exact I.
     + destruct Hcase as [(Hc & _)|(Hc & _)]; [left; rewrite Hc; exact Hcn1|right; eexists; split; [exact Hc|right; eauto]].
     + split; [exact A|]. destruct (goes_on (Ready (Ok (Some f)))) eqn:Hgo.
-      * split; [apply ctl_inv2_weaken; exact B|]. intros Hx.
+      * split; [apply ctl_inv2_weaken; exact B|]. split; [exact S|]. intros Hx.
         destruct Hcase as [(Hc & Hn & _)|(_ & e & -> & _)]; [|discriminate Hx].
         split; [exact C|]. split; [exact Hn|]. rewrite Hc. exact Hcn1.
       * pose proof (control_frame_refuses f (log_taken c2 f) w2 wr r c' w' wr' Ho Hgo H) as Hcr. rewrite Hcr.
-        split; [exact B|discriminate].
+        split; [exact B|]. split; [exact S|discriminate].
   - apply (Hfail CzCtlClosed code_pc_closed); [reflexivity|reflexivity|intros f0; discriminate|exact H].
   - destruct e as [k fe|qe|].
     + destruct (perr_code k) as [code|] eqn:Hk.
@@ -1509,23 +1744,27 @@ Qed.
 (* ---------- the role's driver ---------- *)
 Record good (c : conn) (w : world) (x : sent) : Prop := {
   gd_live : live c w x; gd_frozen : frozen c w x; gd_ctl : ctl_inv2 true c w x;
-  gd_err : c_err c = None; gd_cause : c_cause c = None
+  gd_err : c_err c = None; gd_cause : c_cause c = None; gd_seen : sgood c w x
 }.
 (* what a step leaves behind: the facts that stay, and everything if the driver goes on *)
 Definition post {A} (r : pres A) (c : conn) (w : world) (x : sent) : Prop :=
-  frozen c w x /\ ctl_inv2 (cont r) c w x /\ (cont r = true -> good c w x).
+  frozen c w x /\ ctl_inv2 (cont r) c w x /\ sgood c w x /\ (cont r = true -> good c w x).
 
 Lemma post_of_good {A} (r : pres A) c w x : good c w x -> post r c w x.
-Proof. intros [A1 A2 A3 A4 A5]. split; [exact A2|]. split; [apply ctl_inv2_weaken; exact A3|]. intros _. constructor; auto. Qed.
+Proof.
+  intros [A1 A2 A3 A4 A5 A6]. split; [exact A2|]. split; [apply ctl_inv2_weaken; exact A3|]. split; [exact A6|].
+  intros _. constructor; auto.
+Qed.
 
 (* a change that only touches what the stream-level invariants do not read *)
 Lemma good_parts c c' w w' x :
   stream_part c' = stream_part c -> wsame w w' -> c_err c' = None -> c_cause c' = None -> good c w x -> good c' w' x.
 Proof.
-  intros Hp Hw He Hc [A1 A2 A3 A4 A5]. constructor; auto.
+  intros Hp Hw He Hc [A1 A2 A3 A4 A5 A6]. constructor; auto.
   - eapply live_parts; eauto.
   - eapply frozen_parts; [| |exact A2]; [destruct Hw as (_ & _ & Hs); exact Hs|left; congruence].
   - eapply ctl_parts; eauto. intros z Hz. congruence.
+  - eapply sgood_parts; eauto.
 Qed.
 
 (* a failure caused by a frame *)
@@ -1533,10 +1772,11 @@ Lemma post_frame_fail {A} (r : pres A) c c' w w' x f :
   stream_part c' = stream_part c -> wsame w w' -> c_cause c' = Some (CzFrame f) -> cont r = false ->
   good c w x -> post r c' w' x.
 Proof.
-  intros Hp Hw Hc Hr [A1 A2 A3 A4 A5]. unfold post. rewrite Hr. split; [|split; [|discriminate]].
+  intros Hp Hw Hc Hr [A1 A2 A3 A4 A5 A6]. unfold post. rewrite Hr. split; [|split; [|split; [|discriminate]]].
   - eapply frozen_parts; [| |exact A2]; [destruct Hw as (_ & _ & Hs); exact Hs|].
     right. exists (CzFrame f). split; [exact Hc|right; eauto].
   - apply ctl_inv2_stop. eapply ctl_parts; eauto. intros z Hz Hk. rewrite Hc in Hz. inversion Hz; subst. discriminate.
+  - eapply sgood_parts; eauto.
 Qed.
 
 Lemma log_s_good a c w wr x : good c w x -> let '(c', w', _) := log_s a (c, w, wr) in good c' w' x.
@@ -1563,14 +1803,14 @@ Qed.
 Lemma next_control_bytes role wt x c w wr r c' w' wr' :
   next_control role wt (c, w, wr) = (r, (c', w', wr')) -> good c w x -> post r c' w' x.
 Proof.
-  intros H [A1 A2 A3 A4 A5].
+  intros H [A1 A2 A3 A4 A5 A6].
   assert (Hpc : exists r0 c1 w1 wr1, poll_control wt (c, w, wr) = (r0, (c1, w1, wr1)) /\
-            frozen c1 w1 x /\ ctl_inv2 (cont r0) c1 w1 x /\ (cont r0 = true -> good c1 w1 x)).
+            frozen c1 w1 x /\ ctl_inv2 (cont r0) c1 w1 x /\ sgood c1 w1 x /\ (cont r0 = true -> good c1 w1 x)).
   { destruct (poll_control wt (c, w, wr)) as [r0 [[c1 w1] wr1]] eqn:Hp. exists r0, c1, w1, wr1. split; [reflexivity|].
-    destruct (poll_control_bytes _ x _ _ _ _ _ _ _ Hp A4 A5 A1 A2 A3) as (B1 & B2 & B3).
-    split; [exact B1|]. split; [exact B2|]. intros Hx. destruct (B3 Hx) as (C1 & C2 & C3). constructor; auto.
+    destruct (poll_control_bytes _ x _ _ _ _ _ _ _ Hp A4 A5 A1 A2 A3 A6) as (B1 & B2 & Bs & B3).
+    split; [exact B1|]. split; [exact B2|]. split; [exact Bs|]. intros Hx. destruct (B3 Hx) as (C1 & C2 & C3). constructor; auto.
     rewrite Hx in B2. exact B2. }
-  destruct Hpc as (r0 & c1 & w1 & wr1 & Hp & B1 & B2 & B3).
+  destruct Hpc as (r0 & c1 & w1 & wr1 & Hp & B1 & B2 & Bs & B3).
   (* poll_control's result handed on unchanged *)
   assert (Hlift : (@lift frame unit r0, (c1, w1, wr1)) = (r, (c', w', wr')) -> (forall f, r0 <> PReady f) -> post r c' w' x).
   { intros Heq Hnf. inversion Heq; subst. unfold post.
@@ -1613,7 +1853,8 @@ Qed.
 
 Lemma post_stop {A B} (r : pres A) (r' : pres B) c w x : cont r' = false -> post r c w x -> post r' c w x.
 Proof.
-  intros Hc (A1 & A2 & A3). unfold post. rewrite Hc. split; [exact A1|]. split; [eapply ctl_inv2_false; exact A2|discriminate].
+  intros Hc (A1 & A2 & As & A3). unfold post. rewrite Hc. split; [exact A1|]. split; [eapply ctl_inv2_false; exact A2|].
+  split; [exact As|discriminate].
 Qed.
 
 Lemma control_loop_bytes role wt x : forall fuel c w wr r c' w' wr',
@@ -1625,26 +1866,26 @@ Proof.
   - destruct (next_control role wt (c, w, wr)) as [r1 [[c1 w1] wr1]] eqn:Hn.
     pose proof (next_control_bytes _ _ x _ _ _ _ _ _ _ Hn Hg) as Hp.
     destruct r1 as [u| |e|n| |]; try (inversion H; subst; split; [exact Hp|discriminate]).
-    destruct Hp as (_ & _ & Hgo). eapply IH; [exact H|]. apply Hgo. reflexivity.
+    destruct Hp as (_ & _ & _ & Hgo). eapply IH; [exact H|]. apply Hgo. reflexivity.
 Qed.
 
 (* ---------- the driver task ---------- *)
 Definition running (d : drv) : bool := match d_ph d with PhDone => false | _ => true end.
 Definition dgood (d : drv) (x : sent) : Prop :=
   let '(c, w, _) := d_s d in
-  frozen c w x /\ ctl_inv2 (running d) c w x /\ (running d = true -> good c w x).
+  frozen c w x /\ ctl_inv2 (running d) c w x /\ sgood c w x /\ (running d = true -> good c w x).
 
 Lemma dgood_finish_run d ph c w wr x r :
   ph <> PhDone -> good c w x -> dgood (finish d ph (c, w, wr) r) x.
 Proof.
   intros Hph Hg. unfold dgood, running. cbn [d_s d_ph finish].
-  destruct ph; try congruence; (split; [apply Hg|split; [apply Hg|intros _; exact Hg]]).
+  destruct ph; try congruence; (split; [apply Hg|split; [apply Hg|split; [apply Hg|intros _; exact Hg]]]).
 Qed.
 Lemma dgood_finish_done {A} d c w wr x (r0 : pres A) r :
   post r0 c w x -> dgood (finish d PhDone (c, w, wr) r) x.
 Proof.
-  intros (A1 & A2 & _). unfold dgood, running. cbn [d_s d_ph finish].
-  split; [exact A1|]. split; [eapply ctl_inv2_false; exact A2|discriminate].
+  intros (A1 & A2 & As & _). unfold dgood, running. cbn [d_s d_ph finish].
+  split; [exact A1|]. split; [eapply ctl_inv2_false; exact A2|]. split; [exact As|discriminate].
 Qed.
 
 Lemma good_world c w w' x : wsame w w' -> good c w x -> good c w' x.
@@ -1668,7 +1909,7 @@ Proof.
   - destruct (control_loop (next_control RServer (d_wt d)) (fuel_of (c, w, wr)) (c, w, wr)) as [res [[c1 w1] wr1]] eqn:Hl.
     destruct (control_loop_bytes _ _ x _ _ _ _ _ _ _ _ Hl Hg) as [Hp Hnr].
     destruct res as [u| |e|n| |]; try (eapply dgood_finish_done; exact Hp).
-    destruct Hp as (_ & _ & Hgo). specialize (Hgo eq_refl).
+    destruct Hp as (_ & _ & _ & Hgo). specialize (Hgo eq_refl).
     destruct (c_recv_closing c1) eqn:Hrc.
     + destruct (c_sent c1).
       * apply dgood_finish_run; [discriminate|exact Hgo].
@@ -1677,7 +1918,7 @@ Proof.
   - destruct (control_loop (next_control RClient (d_wt d)) (fuel_of (c, w, wr)) (c, w, wr)) as [res [[c1 w1] wr1]] eqn:Hl.
     destruct (control_loop_bytes _ _ x _ _ _ _ _ _ _ _ Hl Hg) as [Hp Hnr].
     destruct res as [u| |e|n| |]; try (eapply dgood_finish_done; exact Hp).
-    destruct Hp as (_ & _ & Hgo). apply dgood_finish_run; [discriminate|exact (Hgo eq_refl)].
+    destruct Hp as (_ & _ & _ & Hgo). apply dgood_finish_run; [discriminate|exact (Hgo eq_refl)].
 Qed.
 
 Lemma run_headers_bytes d c w wr x : good c w x -> dgood (run_headers d (c, w, wr)) x.
@@ -1717,7 +1958,7 @@ Proof.
   assert (H1 : dgood d1 x) by exact Hd.
   unfold dgood, running in Hd. change (d_ph d1) with (d_ph d). change (d_s d1) with (d_s d).
   destruct (d_s d) as [[c w] wr] eqn:Hs.
-  destruct (d_ph d) eqn:Hph; try (destruct Hd as (_ & _ & Hg); specialize (Hg eq_refl)).
+  destruct (d_ph d) eqn:Hph; try (destruct Hd as (_ & _ & _ & Hg); specialize (Hg eq_refl)).
   - apply run_open_bytes. exact Hg.
   - apply run_headers_bytes. exact Hg.
   - apply run_driver_bytes. exact Hg.
@@ -1800,6 +2041,44 @@ Proof.
   - cbn [sent_step]. apply (live_world_ext _ c w); auto.
 Qed.
 
+Lemma ghost_arrive_seen e c : c_seen (ghost_arrive e c) = c_seen c.
+Proof.
+  unfold ghost_arrive. destruct e; try reflexivity.
+  destruct (c_control c) as [[cid fs]|]; [|reflexivity]. destruct (id =? cid); reflexivity.
+Qed.
+
+Lemma apply_wev_incoming e w :
+  w_incoming (apply_wev e w) = match e with ENewUni id => w_incoming w ++ [id] | _ => w_incoming w end.
+Proof. destruct e; try reflexivity. cbn [apply_wev]. destruct (terminated (rxq w id)); reflexivity. Qed.
+
+Lemma sgood_event c w x e :
+  e <> EPoll -> sgood c w x -> sgood (ghost_arrive e c) (apply_wev e w) (sent_step x e).
+Proof.
+  intros Hne [[F1 F2] L].
+  destruct (ghost_arrive_slots e c) as (Hp & Hc & Hen & Hde & _ & Her).
+  pose proof (sent_step_le x e) as Hle.
+  split.
+  - constructor; rewrite ghost_arrive_seen.
+    + intros id ty Hin. destruct (F1 id ty Hin) as (A & B & C). split; [apply Hle; exact A|].
+      split; [eapply hdr_type_le; eauto|]. rewrite apply_wev_stops. exact C.
+    + intros id Hin. destruct (F2 id Hin) as (A & B & C). split; [apply Hle; exact A|].
+      destruct e; try (split; assumption). cbn [sent_step].
+      destruct (N.eq_dec id0 id) as [->|Hj].
+      * destruct (sn_end x id) eqn:He; try (rewrite ?He; split; congruence).
+      * destruct (sn_end x id0); try (split; assumption).
+        destruct e; cbn [sn_flat sn_end]; rewrite ?upd_other by congruence; split; assumption.
+  - rewrite Her. intros He. destruct (L He) as [L1 L2 L3 L4 L5 L6].
+    constructor; rewrite ?ghost_arrive_seen, ?Hen, ?Hde; auto.
+    + intros id Hin. unfold waiting. rewrite apply_wev_incoming, Hp.
+      destruct e; try (apply L1; exact Hin).
+      * cbn [sent_step sn_ann] in Hin. apply in_app_iff in Hin. destruct Hin as [Hin|[<-|[]]].
+        -- destruct (L1 _ Hin) as [Hw|Hs]; [left|right; exact Hs]. unfold waiting in Hw.
+           apply in_app_iff in Hw. rewrite !in_app_iff. tauto.
+        -- left. rewrite !in_app_iff. cbn [In]. tauto.
+      * apply L1. cbn [sent_step] in Hin. destruct (sn_end x id0); [destruct e|..]; exact Hin.
+    + intros id Hin. specialize (L2 id Hin). unfold is_ctl in *. rewrite Hc. exact L2.
+Qed.
+
 Lemma step_bytes d x e :
   wev_ok e -> NoDup (sn_ann (sent_step x e)) -> dgood d x -> dgood (step d e) (sent_step x e).
 Proof.
@@ -1809,13 +2088,14 @@ Proof.
     assert (Hs : d_s (step d e) = (let '(c, w, wr) := d_s d in (ghost_arrive e c, apply_wev e w, wr)) /\ d_ph (step d e) = d_ph d).
     { destruct e; try congruence; cbn [step]; destruct (d_s d) as [[c w] wr]; split; reflexivity. }
     destruct (d_s d) as [[c w] wr]. destruct Hs as [Hs Hph]. rewrite Hs, Hph.
-    destruct Hd as (A & B & C).
+    destruct Hd as (A & B & Sg & C).
     destruct (ghost_arrive_slots e c) as (_ & _ & _ & _ & Hcz & Hce).
+    pose proof (sgood_event c w x e Hne Sg) as Sg'.
     assert (Hf' : frozen (ghost_arrive e c) (apply_wev e w) (sent_step x e)).
     { eapply frozen_ext; [apply apply_wev_stops|exact Hcz|]. eapply frozen_le; [apply sent_step_le|exact A]. }
-    split; [exact Hf'|]. split; [apply ctl_event; assumption|].
-    intros Hr. destruct (C Hr) as [G1 G2 G3 G4 G5].
-    constructor; [apply live_event; assumption|exact Hf'|apply ctl_event; assumption|congruence|congruence].
+    split; [exact Hf'|]. split; [apply ctl_event; assumption|]. split; [exact Sg'|].
+    intros Hr. destruct (C Hr) as [G1 G2 G3 G4 G5 G6].
+    constructor; [apply live_event; assumption|exact Hf'|apply ctl_event; assumption|congruence|congruence|exact Sg'].
 Qed.
 
 (* ---------- whole histories ---------- *)
@@ -1839,7 +2119,9 @@ Proof.
   assert (Hf : frozen (new_conn grease) (new_world role credit dflt) sent_init).
   { constructor; cbn; try discriminate; try tauto. constructor. }
   assert (Hc : ctl_inv2 true (new_conn grease) (new_world role credit dflt) sent_init) by (split; [reflexivity|discriminate]).
-  split; [exact Hf|]. split; [exact Hc|]. intros _. constructor; auto.
+  assert (Hsg : sgood (new_conn grease) (new_world role credit dflt) sent_init).
+  { split; [constructor; cbn; intros; tauto|intros _; constructor; cbn; intros; try tauto; try discriminate]. }
+  split; [exact Hf|]. split; [exact Hc|]. split; [exact Hsg|]. intros _. constructor; auto.
   unfold live. constructor.
   - intros j _. split; [split; constructor|reflexivity].
   - intros j _. reflexivity.
@@ -1942,9 +2224,9 @@ Theorem polled_streams_settled wt x c w wr r c' w' wr' :
   poll_accept_recv wt (c, w, wr) = (r, (c', w', wr')) -> good c w x ->
   c_err c' = None -> just_polled x (c_pending c').
 Proof.
-  intros H [A1 A2 A3 A4 A5] Hn.
-  destruct (poll_accept_recv_bytes _ x _ _ _ _ _ _ _ H A4 A5 A1 A2 A3) as (_ & _ & Hl).
-  destruct (Hl Hn) as [_ Hp]. exact Hp.
+  intros H [A1 A2 A3 A4 A5 [A6 A7]] Hn.
+  destruct (poll_accept_recv_bytes _ x _ _ _ _ _ _ _ H A4 A5 A1 A2 A3 A6 (A7 A4)) as (_ & _ & _ & Hl).
+  destruct (Hl Hn) as (_ & Hp & _). exact Hp.
 Qed.
 
 (* ====================================================================================== *)
@@ -2206,4 +2488,449 @@ Theorem stream_types_statement role grease wt credit dflt h :
 Proof.
   intros Hh d x c w.
   destruct (stream_types_bytes role grease wt credit dflt h Hh) as [F1 F2 F3 F4 F5 F6]. auto 10.
+Qed.
+
+(* ====================================================================================== *)
+(* Liveness: what a poll of the running driver leaves behind                              *)
+(* ====================================================================================== *)
+Lemma settled_snoc_call : forall h, settled (h ++ [CallAuto]) = true.
+Proof.
+  induction h as [|a h IH]; cbn [app settled]; [reflexivity|].
+  destruct a; try exact IH. rewrite IH, andb_true_r, existsb_app. cbn. apply orb_true_r.
+Qed.
+
+Lemma par_iter_incoming wt : forall todo kept c w wr r c' w' wr',
+  par_iter wt todo kept (c, w, wr) = (r, (c', w', wr')) -> w_incoming w' = w_incoming w.
+Proof.
+  assert (Hfail : forall (z : cause) code c0 w0 wr0 (r : pres unit) c' w' wr',
+            fail z code (c0, w0, wr0) = (r, (c', w', wr')) -> w_incoming w' = w_incoming w0).
+  { intros z code c0 w0 wr0 r c' w' wr' H. rewrite fail_spec in H. destruct (c_err c0); inversion H; subst; reflexivity. }
+  induction todo as [|[id a] rest IH]; intros kept c w wr r c' w' wr' H; cbn [par_iter] in H.
+  - inversion H; subst. reflexivity.
+  - destruct (poll_type a (rxq w id)) as [[p a'] q'].
+    assert (Hi : forall ww, w_incoming ww = w_incoming (set_rxq w id q') -> w_incoming ww = w_incoming w) by (intros ww Hx; exact Hx).
+    destruct p as [[u|e|n]|].
+    + destruct (into_stream_kind a') as [k|e|n]; [|inversion H; subst; reflexivity|inversion H; subst; reflexivity].
+      cbn [c_control c_enc c_dec log_seen] in H. destruct k.
+      * destruct (c_control c); [apply Hfail in H; exact H|apply IH in H; exact H].
+      * apply IH in H; exact H.
+      * destruct (c_enc c); [apply Hfail in H; exact H|apply IH in H; exact H].
+      * destruct (c_dec c); [apply Hfail in H; exact H|apply IH in H; exact H].
+      * destruct wt; apply IH in H; exact H.
+      * apply IH in H; exact H.
+    + destruct e as [|code|qe].
+      * apply IH in H; exact H.
+      * apply Hfail in H; exact H.
+      * inversion H; subst. reflexivity.
+    + inversion H; subst. reflexivity.
+    + apply IH in H; exact H.
+Qed.
+
+Lemma poll_accept_recv_incoming wt c w wr r c' w' wr' :
+  c_err c = None -> poll_accept_recv wt (c, w, wr) = (r, (c', w', wr')) -> w_incoming w' = [].
+Proof.
+  intros He H. unfold poll_accept_recv in H. rewrite He in H. apply par_iter_incoming in H. exact H.
+Qed.
+
+(* nothing delivered so far is left unexamined *)
+Definition ctl_drained (c : conn) : Prop :=
+  forall id fs, c_control c = Some (id, fs) ->
+    exists s0, c_ctl0 c = Some s0 /\
+      last_obs (fst (run (c_trace c) s0 false)) = Some (ONext Pending) /\ settled (c_trace c) = true.
+Definition quiet (c : conn) (w : world) (x : sent) : Prop :=
+  just_polled x (c_pending c) /\ w_incoming w = [] /\ ctl_drained c.
+
+Lemma quiet_parts c c' w w' x :
+  stream_part c' = stream_part c -> wsame w w' -> quiet c w x -> quiet c' w' x.
+Proof.
+  intros Hp (_ & Hi & _) (Q1 & Q2 & Q3). apply stream_part_inv in Hp. destruct Hp as (A & B & _ & _ & E & F & _).
+  unfold quiet, ctl_drained. rewrite A, B, E, F, Hi. auto.
+Qed.
+
+Lemma poll_control_quiet wt x c w wr c' w' wr' :
+  poll_control wt (c, w, wr) = (PPending, (c', w', wr')) -> good c w x -> quiet c' w' x.
+Proof.
+  intros H [A1 A2 A3 A4 A5 [A6 A7]]. unfold poll_control in H. rewrite A4 in H.
+  destruct (poll_accept_recv wt (c, w, wr)) as [r1 [[c1 w1] wr1]] eqn:Hpar.
+  pose proof (poll_accept_recv_frame _ _ _ _ _ _ _ _ Hpar) as (Hfp & -> & _).
+  pose proof (poll_accept_recv_bytes _ x _ _ _ _ _ _ _ Hpar A4 A5 A1 A2 A3 A6 (A7 A4)) as (_ & Hci1 & _ & Hl1).
+  pose proof (poll_accept_recv_incoming _ _ _ _ _ _ _ _ A4 Hpar) as Hinc.
+  destruct Hfp as (_ & _ & _ & Ho).
+  destruct r1 as [u| |e|n| |]; try discriminate H.
+  2:{ (* poll_accept_recv never answers Pending *)
+      exfalso. unfold poll_accept_recv in Hpar. rewrite A4 in Hpar. clear - Hpar.
+      revert Hpar. generalize (c_pending c ++ map (fun id : N => (id, ar_new)) (w_incoming w)) at 1.
+      generalize (set_pending c (c_pending c ++ map (fun id : N => (id, ar_new)) (w_incoming w))), (set_incoming w []).
+      intros c0 w0 todo. generalize (@nil (N * arecv)). revert c0 w0.
+      induction todo as [|[id a] rest IH]; intros c0 w0 kept Hp; cbn [par_iter] in Hp; [discriminate|].
+      destruct (poll_type a (rxq w0 id)) as [[p a'] q'].
+      assert (Hf : forall (z : cause) code s0, fail z code s0 = (@PPending unit, (c1, w1, wr)) -> False).
+      { intros z code [[cc ww] wwr] Hx. rewrite fail_spec in Hx. destruct (c_err cc); discriminate. }
+      destruct p as [[u|e|n]|]; try (eapply IH; eauto; fail); try discriminate.
+      - destruct (into_stream_kind a') as [k|e|n]; try discriminate.
+        cbn [c_control c_enc c_dec log_seen] in Hp. destruct k; try (eapply IH; eauto; fail).
+        + destruct (c_control c0); [eapply Hf; eauto|eapply IH; eauto].
+        + destruct (c_enc c0); [eapply Hf; eauto|eapply IH; eauto].
+        + destruct (c_dec c0); [eapply Hf; eauto|eapply IH; eauto].
+        + destruct wt; eapply IH; eauto.
+      - destruct e as [|code|qe]; try discriminate; [eapply IH; eauto|eapply Hf; eauto]. }
+  cbn [err_of] in Ho. specialize (Ho A4). destruct (Hl1 Ho) as (_ & Hpolled & _).
+  destruct (c_control c1) as [[id fs]|] eqn:Hctl.
+  2:{ inversion H; subst. split; [exact Hpolled|]. split; [exact Hinc|]. intros j fj Hx. congruence. }
+  destruct (poll_next (fs_with_q fs (rxq w1 id))) as [pr fs'] eqn:Hpn.
+  assert (Hpend : pr = Pending /\ c' = set_ghost (set_control c1 (Some (id, fs_with_q fs' []))) (c_ctl0 c1) (c_trace c1 ++ [CallAuto])
+                  /\ w' = set_rxq w1 id (st_q fs')).
+  { destruct pr as [[[f|]|e|n]|].
+    - exfalso. apply control_frame_spec in H; [|exact Ho].
+      destruct H as [(_ & [Hx|Hx] & _)|(e & _ & Hx & _)]; discriminate.
+    - rewrite fail_spec in H. cbn [c_err set_ghost set_control set_slots] in H. rewrite Ho in H. discriminate.
+    - exfalso. destruct e as [k fe|qe|].
+      + destruct (perr_code k); [|discriminate]. rewrite fail_spec in H. cbn [c_err set_ghost set_control set_slots] in H. rewrite Ho in H. discriminate.
+      + destruct qe; try discriminate. rewrite fail_spec in H. cbn [c_err set_ghost set_control set_slots] in H. rewrite Ho in H. discriminate.
+      + rewrite fail_spec in H. cbn [c_err set_ghost set_control set_slots] in H. rewrite Ho in H. discriminate.
+    - discriminate.
+    - inversion H; subst. auto. }
+  destruct Hpend as (-> & -> & ->).
+  split; [exact Hpolled|]. split; [exact Hinc|].
+  intros j fj Hx. cbn [c_control set_ghost set_control set_slots] in Hx. inversion Hx; subst j fj.
+  unfold ctl_inv2 in Hci1. rewrite Hctl in Hci1.
+  destruct Hci1 as (s0 & obs & flat0 & _ & H0 & _ & _ & _ & Hrun & _ & _ & _ & _ & Hgo).
+  destruct (Hgo eq_refl) as (_ & Hrc & Hfin).
+  exists s0. cbn [c_ctl0 c_trace set_ghost set_control set_slots]. split; [exact H0|].
+  rewrite (run_snoc_call _ _ _ _ Hrun Hfin Hrc), Hpn. cbn [fst]. split; [apply last_obs_app|apply settled_snoc_call].
+Qed.
+
+Lemma next_control_quiet role wt x c w wr c' w' wr' :
+  next_control role wt (c, w, wr) = (PPending, (c', w', wr')) -> good c w x -> quiet c' w' x.
+Proof.
+  intros H Hg.
+  destruct (poll_control wt (c, w, wr)) as [r0 [[c1 w1] wr1]] eqn:Hp.
+  assert (Hnf : forall (z : cause) code s0 (r : pres unit) s1, fail z code s0 = (r, s1) -> r <> PPending).
+  { intros z code [[cc ww] wwr] r s1 Hx. rewrite fail_spec in Hx. destruct (c_err cc); inversion Hx; discriminate. }
+  assert (Hgo : forall id s0 s1,
+            match process_goaway id s0 with
+            | (PReady _, s2) => (PReady tt, log_s (AGoaway id) s2)
+            | (r2, s2) => (r2, s2)
+            end = (@PPending unit, s1) -> False).
+  { intros id [[cc ww] wwr] s1 Hx. unfold process_goaway in Hx.
+    destruct (c_recv_closing cc) as [p|]; [|discriminate].
+    destruct (gcmp_eval goaway_reject_cmp p id); [|discriminate].
+    rewrite fail_spec in Hx. destruct (c_err cc); discriminate. }
+  assert (Hpend : r0 = PPending /\ (c1, w1, wr1) = (c', w', wr')).
+  { destruct role; cbn [next_control] in H; [unfold srv_next_control in H|unfold cli_next_control in H]; rewrite Hp in H.
+    - destruct r0 as [f| |e|n| |]; try discriminate; [|inversion H; auto].
+      exfalso. destruct f; try (eapply Hnf; eauto; fail); try discriminate H; try (eapply Hgo; eauto; fail);
+        try (destruct (kind_in _ srv_ignored); [discriminate H|eapply Hnf; eauto]).
+    - destruct r0 as [f| |e|n| |]; try discriminate; [|inversion H; auto].
+      exfalso. destruct f; try (eapply Hnf; eauto; fail); try discriminate H.
+      destruct (negb (sid_is_request id)); [eapply Hnf; eauto|eapply Hgo; eauto]. }
+  destruct Hpend as [-> Heq]. inversion Heq; subst. eapply poll_control_quiet; eauto.
+Qed.
+
+Lemma control_loop_quiet role wt x : forall fuel c w wr c' w' wr',
+  control_loop (next_control role wt) fuel (c, w, wr) = (PPending, (c', w', wr')) -> good c w x -> quiet c' w' x.
+Proof.
+  induction fuel as [|fuel IH]; intros c w wr c' w' wr' H Hg; cbn [control_loop] in H; [discriminate|].
+  destruct (next_control role wt (c, w, wr)) as [r1 [[c1 w1] wr1]] eqn:Hn.
+  destruct r1 as [u| |e|n| |]; try discriminate.
+  - pose proof (next_control_bytes _ _ x _ _ _ _ _ _ _ Hn Hg) as (_ & _ & _ & Hgo). eapply IH; [exact H|apply Hgo; reflexivity].
+  - inversion H; subst. eapply next_control_quiet; eauto.
+Qed.
+
+(* the driver has just run its control loop to Pending *)
+Definition dquiet (d : drv) (x : sent) : Prop :=
+  match d_ph d with
+  | PhRun | PhNone => let '(c, w, _) := d_s d in quiet c w x
+  | _ => True
+  end.
+
+Lemma dquiet_finish d ph c w wr x r : quiet c w x -> dquiet (finish d ph (c, w, wr) r) x.
+Proof. intros Hq. unfold dquiet. cbn [d_ph d_s finish]. destruct ph; auto. Qed.
+Lemma dquiet_other d ph s x r : ph <> PhRun -> ph <> PhNone -> dquiet (finish d ph s r) x.
+Proof. intros H1 H2. unfold dquiet. cbn [d_ph finish]. destruct ph; auto; congruence. Qed.
+
+Lemma run_driver_quiet d c w wr x : good c w x -> dquiet (run_driver d (c, w, wr)) x.
+Proof.
+  intros Hg. unfold run_driver. destruct (d_role d).
+  - destruct (control_loop (next_control RServer (d_wt d)) (fuel_of (c, w, wr)) (c, w, wr)) as [res [[c1 w1] wr1]] eqn:Hl.
+    destruct res as [u| |e|n| |]; try (apply dquiet_other; discriminate).
+    pose proof (control_loop_quiet _ _ x _ _ _ _ _ _ _ Hl Hg) as Hq.
+    destruct (c_recv_closing c1).
+    + destruct (c_sent c1); [apply dquiet_finish; exact Hq|].
+      unfold run_shutdown.
+      destruct (poll_ready (control_send_id (d_role d)) _ w1) as [[y wr2] w2] eqn:Hp. apply poll_ready_wsame in Hp.
+      destruct y; try (apply dquiet_other; discriminate).
+      apply dquiet_finish. eapply quiet_parts; [|exact Hp|exact Hq]. reflexivity.
+    + apply dquiet_finish. exact Hq.
+  - destruct (control_loop (next_control RClient (d_wt d)) (fuel_of (c, w, wr)) (c, w, wr)) as [res [[c1 w1] wr1]] eqn:Hl.
+    destruct res as [u| |e|n| |]; try (apply dquiet_other; discriminate).
+    apply dquiet_finish. eapply control_loop_quiet; eauto.
+Qed.
+
+Lemma run_headers_quiet d c w wr x : good c w x -> dquiet (run_headers d (c, w, wr)) x.
+Proof.
+  intros Hg. unfold run_headers.
+  destruct (poll_ready (control_send_id (d_role d)) wr w) as [[r1 wr1] w1] eqn:H1. apply poll_ready_wsame in H1.
+  pose proof (good_world _ _ _ _ H1 Hg) as G1.
+  destruct r1; try (apply dquiet_other; discriminate);
+    destruct (poll_ready (decoder_send_id (d_role d)) wr1 w1) as [[r2 wr2] w2] eqn:H2; apply poll_ready_wsame in H2;
+    pose proof (good_world _ _ _ _ H2 G1) as G2;
+    destruct r2; try (apply dquiet_other; discriminate);
+    destruct (poll_ready (encoder_send_id (d_role d)) wr2 w2) as [[r3 wr3] w3] eqn:H3; apply poll_ready_wsame in H3;
+    pose proof (good_world _ _ _ _ H3 G2) as G3;
+    destruct r3; try (apply dquiet_other; discriminate).
+  apply run_driver_quiet. exact G3.
+Qed.
+
+Lemma run_open_quiet d x : forall n k c w wr, good c w x -> dquiet (run_open n k d (c, w, wr)) x.
+Proof.
+  induction n as [|n IH]; intros k c w wr Hg; cbn [run_open].
+  - destruct (3 <=? k); [apply run_headers_quiet; exact Hg|apply dquiet_other; discriminate].
+  - destruct (3 <=? k); [apply run_headers_quiet; exact Hg|].
+    destruct (open_send w) as [[id w']|] eqn:Ho.
+    + apply IH. apply open_send_wsame in Ho. eapply good_world; eauto.
+    + apply dquiet_other; discriminate.
+Qed.
+
+(* a poll made while the driver is not waiting for its last GOAWAY to be written *)
+Lemma drive_quiet d x : dgood d x -> d_ph d <> PhShutdown -> d_ph d <> PhDone -> dquiet (drive d) x.
+Proof.
+  intros Hd Hns Hnd. unfold drive.
+  set (d1 := {| d_role := d_role d; d_grease := d_grease d; d_wt := d_wt d; d_ph := d_ph d; d_s := d_s d;
+                d_res := d_res d; d_polls := d_polls d + 1; d_at := d_at d |}).
+  unfold dgood, running in Hd. change (d_ph d1) with (d_ph d). change (d_s d1) with (d_s d).
+  destruct (d_s d) as [[c w] wr] eqn:Hs.
+  destruct (d_ph d) eqn:Hph; try congruence; destruct Hd as (_ & _ & _ & Hg); specialize (Hg eq_refl).
+  - apply run_open_quiet. exact Hg.
+  - apply run_headers_quiet. exact Hg.
+  - apply run_driver_quiet. exact Hg.
+  - apply run_driver_quiet. exact Hg.
+Qed.
+
+(* what the invariant says about a claimed control stream, with the run made explicit *)
+Lemma ctl_refines g c w x id fs :
+  ctl_ok g c w x id fs ->
+  exists s0 rest,
+    c_ctl0 c = Some s0 /\ In id (sn_ann x) /\
+    uni_header (sn_flat x id) = Some (ST_CONTROL, None, rest) /\
+    toks_of (fst (run (c_trace c) s0 false)) = map TFrame (c_taken c) /\
+    refines (fst (run (c_trace c) s0 false)) (frame_outcome settings_verdict rest (sn_end x id)) (sn_end x id)
+            (settled (c_trace c)).
+Proof.
+  intros (s0 & obs & flat0 & Hann & H0 & Hi0 & Hr0 & Hh0 & Hrun & Htk & Hhd & Hj & Hcz & _).
+  set (fa := match q_end (st_q s0) with Open => arrivals (c_trace c) | _ => ([], Open) end).
+  assert (Hfut : fut_ok s0 (fst fa)).
+  { unfold fa. destruct (q_end (st_q s0)) eqn:Hq; split; try constructor; try reflexivity.
+    - apply arrivals_wf. exact Hh0.
+    - congruence. }
+  assert (Harr : q_end (st_q s0) = Open -> arrivals (c_trace c) = (fst fa, snd fa)).
+  { intros Hq. unfold fa. rewrite Hq. destruct (arrivals (c_trace c)); reflexivity. }
+  pose proof (run_refines (c_trace c) s0 (fst fa) (snd fa) Hi0 Hfut Hh0 Harr) as Href.
+  rewrite spec_of_rem0, V_app in Href by exact Hr0.
+  assert (Hjoin : (sn_flat x id, sn_end x id) = (flat0 ++ fst fa, E s0 (snd fa))).
+  { rewrite Hj. unfold joined, fa, E. destruct (q_end (st_q s0)); cbn [fst snd]; rewrite ?app_nil_r; reflexivity. }
+  inversion Hjoin as [[Hf He]].
+  exists s0, (V s0 [] ++ fst fa). split; [exact H0|]. split; [exact Hann|].
+  split; [rewrite Hf; apply uni_header_app; exact Hhd|].
+  rewrite Hrun. cbn [fst]. split; [exact Htk|]. rewrite He. rewrite Hrun in Href. exact Href.
+Qed.
+
+(* Liveness.  After a poll of the running driver that was not spent waiting for its own last GOAWAY to be written:
+   - no announced stream is left unaccepted; every stream still pending has an incomplete header and has not ended;
+   - the control stream, if claimed, has been read to the end of what was delivered: the RFC 7.1 segmentation of its
+     bytes consists of exactly the frames taken (all complete frames were taken, none is pending) and the stream is
+     still open. *)
+Theorem poll_settles role grease wt credit dflt h :
+  whist_ok (h ++ [EPoll]) ->
+  let d0 := run_history h (new_drv role grease wt credit dflt) in
+  let d := run_history (h ++ [EPoll]) (new_drv role grease wt credit dflt) in
+  let x := sent_of (h ++ [EPoll]) in
+  d_ph d0 <> PhShutdown -> d_ph d = PhRun \/ d_ph d = PhNone ->
+  just_polled x (c_pending (conn_of d)) /\ w_incoming (world_of d) = [] /\
+  (forall id fs, c_control (conn_of d) = Some (id, fs) ->
+     exists rest, In id (sn_ann x) /\ uni_header (sn_flat x id) = Some (ST_CONTROL, None, rest) /\
+       frame_outcome settings_verdict rest (sn_end x id) = (map TFrame (c_taken (conn_of d)), Waiting) /\
+       sn_end x id = Open).
+Proof.
+  intros Hh d0 d x Hns Hph.
+  assert (Hx : x = sent_of h).
+  { unfold x, sent_of. rewrite fold_left_app. reflexivity. }
+  assert (Hd : d = drive d0).
+  { unfold d, d0, run_history. rewrite fold_left_app. reflexivity. }
+  assert (Hh0 : whist_ok h).
+  { destruct Hh as [Hf Hn]. split; [apply Forall_app in Hf; tauto|]. fold x in Hn. rewrite Hx in Hn. exact Hn. }
+  pose proof (bytes_invariant role grease wt credit dflt h Hh0) as Hg0. fold d0 in Hg0. rewrite <- Hx in Hg0.
+  pose proof (bytes_invariant role grease wt credit dflt (h ++ [EPoll]) Hh) as Hg. fold d x in Hg.
+  assert (Hnd : d_ph d0 <> PhDone).
+  { intros Hdone. assert (Hx2 : d_ph (drive d0) = PhDone) by (unfold drive; cbn [d_ph]; rewrite Hdone; cbn [d_ph]; reflexivity).
+    rewrite <- Hd in Hx2. destruct Hph; congruence. }
+  pose proof (drive_quiet d0 x Hg0 Hns Hnd) as Hq. rewrite <- Hd in Hq.
+  unfold dquiet in Hq. unfold dgood in Hg. unfold conn_of, world_of.
+  destruct (d_s d) as [[c w] wr]. destruct Hg as (_ & Hci & _).
+  assert (Hq' : quiet c w x) by (destruct Hph as [E|E]; rewrite E in Hq; exact Hq).
+  destruct Hq' as (Q1 & Q2 & Q3). split; [exact Q1|]. split; [exact Q2|].
+  intros id fs Hc. unfold ctl_inv2 in Hci. rewrite Hc in Hci.
+  destruct (ctl_refines _ _ _ _ _ _ Hci) as (s0 & rest & H0 & Hann & Hhd & Htk & Href).
+  destruct (Q3 id fs Hc) as (s0' & H0' & Hlast & Hset). rewrite H0 in H0'. inversion H0'; subst s0'.
+  destruct Href as (_ & _ & Hquiet). rewrite Hset in Hquiet.
+  destruct (Hquiet eq_refl _ Hlast eq_refl) as [Hopen HO].
+  exists rest. split; [exact Hann|]. split; [exact Hhd|]. split; [rewrite HO, Htk; reflexivity|exact Hopen].
+Qed.
+
+(* ---------- nothing complete is left unanswered ---------- *)
+Lemma flat_map_nil {A B} (f : A -> list B) l : (forall a, In a l -> f a = []) -> flat_map f l = [].
+Proof.
+  induction l as [|a l IH]; intros H; cbn [flat_map]; [reflexivity|].
+  rewrite (H a (or_introl eq_refl)), IH; [reflexivity|]. intros b Hb. apply H. right. exact Hb.
+Qed.
+
+Lemma filter_nil {A} (q : A -> bool) l : (forall a, In a l -> q a = false) -> filter q l = [].
+Proof.
+  induction l as [|a l IH]; intros H; cbn [filter]; [reflexivity|].
+  rewrite (H a (or_introl eq_refl)). apply IH. intros b Hb. apply H. right. exact Hb.
+Qed.
+
+Lemma count_one (p : sclass -> bool) x :
+  NoDup (sn_ann x) ->
+  (forall a b, In a (sn_ann x) -> In b (sn_ann x) ->
+     p (classify_stream {| sd_id := a; sd_bytes := sn_flat x a; sd_end := sn_end x a |}) = true ->
+     p (classify_stream {| sd_id := b; sd_bytes := sn_flat x b; sd_end := sn_end x b |}) = true -> a = b) ->
+  (2 <=? count_class p (sdescs x))%nat = false.
+Proof.
+  unfold count_class, sdescs. set (mk := fun id => {| sd_id := id; sd_bytes := sn_flat x id; sd_end := sn_end x id |}).
+  set (q := fun s => p (classify_stream s)).
+  induction (sn_ann x) as [|a l IH]; intros Hnd Hu; [reflexivity|].
+  inversion Hnd as [|a0 l0 Hna Hnd']; subst. cbn [map filter].
+  destruct (q (mk a)) eqn:Hqa.
+  - rewrite (filter_nil q (map mk l)); [reflexivity|].
+    intros s Hs. apply in_map_iff in Hs. destruct Hs as (b & <- & Hb).
+    destruct (q (mk b)) eqn:Hqb; [|reflexivity]. exfalso. apply Hna.
+    rewrite (Hu a b); [exact Hb|left; reflexivity|right; exact Hb|exact Hqa|exact Hqb].
+  - apply IH; [exact Hnd'|]. intros a1 b1 Ha1 Hb1. apply Hu; right; assumption.
+Qed.
+
+(* the types the specification calls unknown are the ones into_stream has no arm for *)
+Lemma unknown_of_spec ty :
+  (ty =? ST_CONTROL) = false -> (ty =? ST_PUSH) = false -> (ty =? ST_QPACK_ENCODER) = false ->
+  (ty =? ST_QPACK_DECODER) = false -> (ty =? ST_WEBTRANSPORT_UNI) = false -> unknown_type ty.
+Proof.
+  unfold unknown_type, kind_assoc, into_stream_arms, st_CONTROL, st_PUSH, st_ENCODER, st_DECODER, st_WEBTRANSPORT_UNI,
+    ST_CONTROL, ST_PUSH, ST_QPACK_ENCODER, ST_QPACK_DECODER, ST_WEBTRANSPORT_UNI.
+  intros -> -> -> -> ->. reflexivity.
+Qed.
+
+(* Liveness, second half.  After a poll of the running driver (not spent waiting for its own last GOAWAY):
+   - nothing the peer sent so far is a complete violation ([hs_hard] is empty): no second control, encoder or decoder
+     stream was announced with a complete header, and the frames of the control stream, all of which were taken
+     (poll_settles), were all accepted by the rule table;
+   - every announced stream whose complete header names an unknown type has been answered with STOP_SENDING.
+   Contrapositive: once the peer's bytes contain a complete violation the statement lists, a poll cannot leave the
+   driver running - it has failed (exactly_once/errors_allowed say with which code), or left the model's domain. *)
+Theorem poll_complete role grease wt credit dflt h :
+  whist_ok (h ++ [EPoll]) ->
+  let d0 := run_history h (new_drv role grease wt credit dflt) in
+  let d := run_history (h ++ [EPoll]) (new_drv role grease wt credit dflt) in
+  let x := sent_of (h ++ [EPoll]) in
+  d_ph d0 <> PhShutdown -> d_ph d = PhRun \/ d_ph d = PhNone ->
+  hs_hard (uni_spec_with settings_verdict (srole_of role) (sdescs x)) = [] /\
+  (forall id, In id (hs_stops (uni_spec_with settings_verdict (srole_of role) (sdescs x))) ->
+     exists code, In (id, code) (l_stops (w_log (world_of d)))).
+Proof.
+  intros Hh d0 d x Hns Hph.
+  pose proof (poll_settles role grease wt credit dflt h Hh) as Hps. cbv zeta in Hps. fold d0 d x in Hps.
+  destruct (Hps Hns Hph) as (Q1 & Q2 & Q3). clear Hps.
+  pose proof (bytes_invariant role grease wt credit dflt (h ++ [EPoll]) Hh) as Hg. fold d x in Hg.
+  pose proof (exactly_once role grease wt credit dflt (h ++ [EPoll])) as Hx. cbv zeta in Hx. fold d in Hx.
+  pose proof (run_history_inv (h ++ [EPoll]) _ (new_drv_inv role grease wt credit dflt)) as Hinv. fold d in Hinv.
+  destruct Hinv as (_ & _ & _ & I4).
+  assert (Hnd : d_ph d <> PhDone) by (destruct Hph as [E|E]; rewrite E; discriminate).
+  destruct (I4 Hnd) as [Hni Hne]. specialize (Hx Hni).
+  destruct Hh as [_ Hnodup]. fold x in Hnodup.
+  unfold dgood, running in Hg. unfold conn_of, world_of in *.
+  destruct (d_s d) as [[c w] wr].
+  assert (Hrun : match d_ph d with PhDone => false | _ => true end = true) by (destruct Hph as [E|E]; rewrite E; reflexivity).
+  destruct Hg as (_ & _ & _ & Hgood). specialize (Hgood Hrun).
+  destruct Hgood as [_ _ _ Herr _ [Sf Sl]]. specialize (Sl Herr).
+  destruct Sf as [F1 F2]. destruct Sl as [L1 L2 L3 L4 L5 L6].
+  (* every announced stream with a complete header has left the pending set, with its type recorded *)
+  assert (Hres : forall id, In id (sn_ann x) -> uni_header (sn_flat x id) <> None ->
+            exists ty, In (id, Some ty) (c_seen c) /\ hdr_type x id = Some ty).
+  { intros id Hann Hhd. destruct (L1 id Hann) as [Hw|Hs].
+    - exfalso. unfold waiting in Hw. rewrite Q2 in Hw. cbn [app] in Hw. unfold ids_of in Hw.
+      apply in_map_iff in Hw. destruct Hw as ([j a] & Hj & Hin). cbn [fst] in Hj. subst j.
+      destruct (Q1 id a Hin) as [Hnone _]. contradiction.
+    - apply in_map_iff in Hs. destruct Hs as ([j o] & Hj & Hin). cbn [fst] in Hj. subst j.
+      destruct o as [ty|].
+      + exists ty. split; [exact Hin|]. apply (F1 id ty Hin).
+      + exfalso. destruct (F2 id Hin) as (_ & Hnone & _). contradiction. }
+  (* what the specification's classification says about the header *)
+  assert (Hcls : forall id ty rest, rfc_take_varint (sn_flat x id) = Some (ty, rest) -> has_second_varint ty = false ->
+            uni_header (sn_flat x id) = Some (ty, None, rest) /\ hdr_type x id = Some ty).
+  { intros id ty rest Hv H2. unfold hdr_type, uni_header. rewrite Hv, H2. split; reflexivity. }
+  assert (Hseen : forall id ty rest, In id (sn_ann x) -> rfc_take_varint (sn_flat x id) = Some (ty, rest) ->
+            has_second_varint ty = false -> In (id, Some ty) (c_seen c)).
+  { intros id ty rest Hann Hv H2. destruct (Hcls id ty rest Hv H2) as [Hu Ht].
+    destruct (Hres id Hann) as (ty' & Hin & Ht'); [rewrite Hu; discriminate|]. rewrite Ht in Ht'. inversion Ht'; subst. exact Hin. }
+  split.
+  - unfold uni_spec_with. cbn [hs_hard].
+    match goal with |- ?a ++ ?b = [] => assert (Ha : a = []); [|assert (Hb : b = []); [|rewrite Ha, Hb; reflexivity]] end.
+    + (* no duplicates *)
+      unfold duplicates.
+      rewrite (count_one is_control), (count_one is_encoder), (count_one is_decoder); [reflexivity| | | | | |]; try exact Hnodup.
+      * intros a b Ha Hb Pa Pb. apply L5; [|].
+        -- unfold classify_stream in Pa. cbn [sd_bytes] in Pa. destruct (rfc_take_varint (sn_flat x a)) as [[ty rest]|] eqn:Hv; [|discriminate].
+           destruct (ty =? ST_CONTROL); [discriminate|]. destruct (ty =? ST_PUSH); [discriminate|].
+           destruct (ty =? ST_QPACK_ENCODER); [discriminate|]. destruct (N.eqb_spec ty ST_QPACK_DECODER) as [->|]; [|destruct (ty =? ST_WEBTRANSPORT_UNI); discriminate].
+           eapply Hseen; eauto.
+        -- unfold classify_stream in Pb. cbn [sd_bytes] in Pb. destruct (rfc_take_varint (sn_flat x b)) as [[ty rest]|] eqn:Hv; [|discriminate].
+           destruct (ty =? ST_CONTROL); [discriminate|]. destruct (ty =? ST_PUSH); [discriminate|].
+           destruct (ty =? ST_QPACK_ENCODER); [discriminate|]. destruct (N.eqb_spec ty ST_QPACK_DECODER) as [->|]; [|destruct (ty =? ST_WEBTRANSPORT_UNI); discriminate].
+           eapply Hseen; eauto.
+      * intros a b Ha Hb Pa Pb. apply L3; [|].
+        -- unfold classify_stream in Pa. cbn [sd_bytes] in Pa. destruct (rfc_take_varint (sn_flat x a)) as [[ty rest]|] eqn:Hv; [|discriminate].
+           destruct (ty =? ST_CONTROL); [discriminate|]. destruct (ty =? ST_PUSH); [discriminate|].
+           destruct (N.eqb_spec ty ST_QPACK_ENCODER) as [->|]; [|destruct (ty =? ST_QPACK_DECODER); [|destruct (ty =? ST_WEBTRANSPORT_UNI)]; discriminate].
+           eapply Hseen; eauto.
+        -- unfold classify_stream in Pb. cbn [sd_bytes] in Pb. destruct (rfc_take_varint (sn_flat x b)) as [[ty rest]|] eqn:Hv; [|discriminate].
+           destruct (ty =? ST_CONTROL); [discriminate|]. destruct (ty =? ST_PUSH); [discriminate|].
+           destruct (N.eqb_spec ty ST_QPACK_ENCODER) as [->|]; [|destruct (ty =? ST_QPACK_DECODER); [|destruct (ty =? ST_WEBTRANSPORT_UNI)]; discriminate].
+           eapply Hseen; eauto.
+      * intros a b Ha Hb Pa Pb.
+        assert (Hc : forall j, In j (sn_ann x) ->
+                  is_control (classify_stream {| sd_id := j; sd_bytes := sn_flat x j; sd_end := sn_end x j |}) = true -> is_ctl c j).
+        { intros j Hj Pj. apply L2. unfold classify_stream in Pj. cbn [sd_bytes] in Pj.
+          destruct (rfc_take_varint (sn_flat x j)) as [[ty rest]|] eqn:Hv; [|discriminate].
+          destruct (N.eqb_spec ty ST_CONTROL) as [->|];
+            [|destruct (ty =? ST_PUSH); [|destruct (ty =? ST_QPACK_ENCODER); [|destruct (ty =? ST_QPACK_DECODER); [|destruct (ty =? ST_WEBTRANSPORT_UNI)]]]; discriminate].
+          eapply Hseen; eauto. }
+        destruct (Hc a Ha Pa) as [fa Hfa]. destruct (Hc b Hb Pb) as [fb Hfb]. congruence.
+    + (* the control stream's frames were all accepted *)
+      apply flat_map_nil. intros v Hv. unfold controls_with in Hv. apply in_flat_map in Hv.
+      destruct Hv as (s & Hs & Hv). unfold sdescs in Hs. apply in_map_iff in Hs. destruct Hs as (id & <- & Hann).
+      unfold classify_stream in Hv. cbn [sd_bytes sd_end] in Hv.
+      destruct (rfc_take_varint (sn_flat x id)) as [[ty rest]|] eqn:Hvar; [|destruct Hv].
+      destruct (N.eqb_spec ty ST_CONTROL) as [->|];
+        [|destruct (ty =? ST_PUSH); [|destruct (ty =? ST_QPACK_ENCODER); [|destruct (ty =? ST_QPACK_DECODER); [|destruct (ty =? ST_WEBTRANSPORT_UNI)]]]; destruct Hv].
+      destruct Hv as [<-|[]].
+      assert (Hin : In (id, Some ST_CONTROL) (c_seen c)) by (eapply Hseen; eauto).
+      destruct (L2 id Hin) as [fs Hc].
+      destruct (Q3 id fs Hc) as (rest' & _ & Hhd & Hout & _).
+      destruct (Hcls id ST_CONTROL rest Hvar eq_refl) as [Hu _]. rewrite Hu in Hhd. inversion Hhd; subst rest'.
+      unfold control_view_with. rewrite Hout.
+      pose proof (ctl_scan_run (srole_of role) (c_taken c) cs_init [] Waiting) as Hsr. rewrite app_nil_r in Hsr.
+      destruct (ctl_run (srole_of role) cs_init (c_taken c)) as [[acts st] [codes|]].
+      * exfalso. destruct Hx as (_ & e & He & _). exact (Hne e He).
+      * destruct (ctl_scan (srole_of role) cs_init (map TFrame (c_taken c)) Waiting) as [[a0 h0] s0]. cbn [fst snd cv_hard] in *.
+        destruct Hsr as [_ ->]. reflexivity.
+  - (* unknown types are refused *)
+    intros id Hin. unfold uni_spec_with in Hin. cbn [hs_stops] in Hin. apply in_flat_map in Hin.
+    destruct Hin as (s & Hs & Hin). unfold sdescs in Hs. apply in_map_iff in Hs. destruct Hs as (j & <- & Hann).
+    unfold classify_stream in Hin. cbn [sd_bytes sd_id] in Hin.
+    destruct (rfc_take_varint (sn_flat x j)) as [[ty rest]|] eqn:Hvar; [|destruct Hin].
+    destruct (ty =? ST_CONTROL) eqn:E1; [destruct Hin|]. destruct (ty =? ST_PUSH) eqn:E2; [destruct Hin|].
+    destruct (ty =? ST_QPACK_ENCODER) eqn:E3; [destruct Hin|]. destruct (ty =? ST_QPACK_DECODER) eqn:E4; [destruct Hin|].
+    destruct (ty =? ST_WEBTRANSPORT_UNI) eqn:E5; [destruct Hin|]. destruct Hin as [<-|[]].
+    assert (H2 : has_second_varint ty = false) by (unfold has_second_varint; rewrite E2, E5; reflexivity).
+    pose proof (Hseen j ty rest Hann Hvar H2) as Hsn.
+    destruct (F1 j ty Hsn) as (_ & _ & Hstop). apply Hstop. apply unknown_of_spec; assumption.
 Qed.
